@@ -200,6 +200,8 @@ Definition touches (st : state) (p : path) (it : item) : bool :=
   end.
 
 
+Definition allfeed (st : state) : list item := List.concat (st_feeds st).
+
 Record GInv (st : state) : Prop := {
   g_nodup : NoDup (map fst (st_tree st));
   g_leaf : forall p l, In (p, l) (st_tree st) -> leaf_path st l = Some p;
@@ -215,6 +217,7 @@ Record GInv (st : state) : Prop := {
               forall p l, In (p, l) (st_tree st) -> covers d p = false;
   g_feed_tgt : forall w w' it it', w <> w' ->
               In it (feed_of st w) -> In it' (feed_of st w') -> item_target st it <> item_target st it';
+  g_feed_nodup : NoDup (allfeed st);
 }.
 
 Lemma agree_on_ext st st' p :
@@ -227,7 +230,7 @@ Qed.
 Lemma GInv_set_subs st ss :
   map s_qs ss = map s_qs (st_subs st) -> GInv st -> GInv (set_subs st ss).
 Proof.
-  intros Hq [a b c d e f g i]. constructor; auto.
+  intros Hq [a b c d e f g i j]. constructor; auto.
   intros p l H. destruct (c p l H) as (c1 & c2 & c3). repeat split; auto.
   rewrite <- c3. apply agree_on_ext. exact Hq.
 Qed.
@@ -244,6 +247,7 @@ Proof.
     destruct (nth_in_or_default w (repeat (@nil item) nw) []) as [Hin|Hd].
     + eauto.
     + rewrite Hd in H. contradiction.
+  - unfold allfeed. cbn. clear E. induction nw; cbn; auto. constructor.
 Qed.
 
 (** ** Stability of the stores *)
@@ -339,6 +343,50 @@ Proof.
   congruence.
 Qed.
 
+
+(** *** replacing one writer's pending list *)
+Lemma concat_upd_nth {A} (fs : list (list A)) w f0 :
+  nth_error fs w = Some f0 ->
+  exists a b : list A, List.concat fs = (a ++ f0 ++ b)%list /\
+              forall f, List.concat (upd_nth w (fun _ => f) fs) = (a ++ f ++ b)%list.
+Proof.
+  revert w; induction fs as [|g fs IH]; intros [|w] H; cbn in H; try discriminate.
+  - inversion H; subst. exists [], (List.concat fs). split; [reflexivity|]. intros f. reflexivity.
+  - destruct (IH _ H) as (a & b & E1 & E2). exists (g ++ a), b. split.
+    + cbn. rewrite E1. rewrite app_assoc. reflexivity.
+    + intros f. cbn. rewrite E2. rewrite app_assoc. reflexivity.
+Qed.
+
+Lemma feed_of_nth_error st w : (w < List.length (st_feeds st))%nat -> nth_error (st_feeds st) w = Some (feed_of st w).
+Proof.
+  intros H. unfold feed_of. destruct (nth_error (st_feeds st) w) eqn:E.
+  - rewrite (nth_error_nth _ _ _ E). reflexivity.
+  - apply nth_error_None in E. lia.
+Qed.
+
+Lemma In_concat_feed st it : In it (allfeed st) <-> exists w, In it (feed_of st w).
+Proof.
+  unfold allfeed. rewrite in_concat. split.
+  - intros (f & Hf & Hit). destruct (In_feed_of _ _ Hf) as (w & <- & _). eauto.
+  - intros (w & Hw). exists (feed_of st w). split; auto. eapply feed_of_In; eauto.
+Qed.
+
+Lemma NoDup_insert {A} (a f b : list A) :
+  NoDup (a ++ b) -> NoDup f -> (forall x, In x f -> ~ In x (a ++ b)) -> NoDup (a ++ f ++ b).
+Proof.
+  intros H1 H2 H3.
+  apply (Permutation_NoDup (l := f ++ (a ++ b))).
+  - rewrite !app_assoc. apply Permutation_app_tail. apply Permutation_app_comm.
+  - apply NoDup_app_intro; auto.
+Qed.
+
+Lemma NoDup_remove_mid {A} (a f b : list A) : NoDup (a ++ f ++ b) -> NoDup (a ++ b).
+Proof.
+  intros H. apply (Permutation_NoDup (l' := f ++ (a ++ b))) in H.
+  - induction f; cbn in *; auto. inversion H; auto.
+  - rewrite !app_assoc. apply Permutation_app_tail. apply Permutation_app_comm.
+Qed.
+
 Definition ext (st st' : state) : Prop :=
   forall it d, item_pat st it = Some d -> item_pat st' it = Some d.
 
@@ -382,6 +430,28 @@ Proof.
     apply (Hold w1 w2); auto.
 Qed.
 
+
+Lemma nth_error_feed_of st w f : nth_error (st_feeds st) w = Some f -> feed_of st w = f.
+Proof. intros H. unfold feed_of. apply nth_error_nth. exact H. Qed.
+
+(** the pending lists after writer [w] (whose list was empty) got [f] *)
+Lemma allfeed_set_feed st w f :
+  nth_error (st_feeds st) w = Some [] ->
+  exists a b, allfeed st = a ++ b /\ List.concat (set_feed st w f) = a ++ f ++ b.
+Proof.
+  intros H. destruct (concat_upd_nth _ _ _ H) as (a & b & E1 & E2). exists a, b. split; [exact E1|].
+  unfold set_feed. apply E2.
+Qed.
+
+Lemma NoDup_set_feed st w f :
+  nth_error (st_feeds st) w = Some [] -> NoDup (allfeed st) -> NoDup f ->
+  (forall x, In x f -> ~ In x (allfeed st)) ->
+  NoDup (List.concat (set_feed st w f)).
+Proof.
+  intros H N1 N2 N3. destruct (allfeed_set_feed st w f H) as (a & b & E1 & E2).
+  rewrite E2. apply NoDup_insert; try rewrite <- E1; auto.
+Qed.
+
 Lemma wf_exists st : GInv st -> forall f0 it, In f0 (st_feeds st) -> In it f0 -> exists d, item_pat st it = Some d.
 Proof. intros G f0 it H1 H2. destruct (g_feed_wf _ G _ _ H1 H2) as (_ & d & Hd & _). eauto. Qed.
 
@@ -390,13 +460,13 @@ Proof. intros G H. apply (g_leaf _ G). apply tlookup_In. exact H. Qed.
 
 (** *** update of an existing leaf *)
 Lemma GInv_upd_existing st w p l c f :
-  GInv st -> tlookup p (st_tree st) = Some l ->
+  GInv st -> nth_error (st_feeds st) w = Some [] -> tlookup p (st_tree st) = Some l ->
   (f = [] \/ f = [ILeaf l]) ->
   (forall w' it, w' <> w -> In it (feed_of st w') -> item_target st it <> Some (target_of p)) ->
   GInv (mkState (upd_nth l (fun pc => (fst pc, c)) (st_leaves st)) (st_dels st) (st_tree st)
                 (set_feed st w f) (st_subs st)).
 Proof.
-  intros G Hl Hf Hother.
+  intros G Hnth Hl Hf Hother.
   set (st' := mkState _ _ _ _ _).
   assert (LP : forall l', leaf_path st' l' = leaf_path st l').
   { intros l'. unfold leaf_path, st'. cbn. apply leaf_path_upd. }
@@ -425,17 +495,24 @@ Proof.
     + intros it Hit. destruct Hf as [->| ->]; [contradiction|]. destruct Hit as [<-|[]].
       unfold item_target. rewrite IP. cbn. rewrite Hpl. reflexivity.
     + apply (g_feed_tgt _ G).
+  - unfold allfeed; cbn. apply NoDup_set_feed; auto; [apply (g_feed_nodup _ G)| |].
+    + destruct Hf as [->| ->]; repeat constructor; auto.
+    + intros x Hx Hin'. destruct Hf as [->| ->]; [contradiction|]. destruct Hx as [<-|[]].
+      apply In_concat_feed in Hin' as (w' & Hw').
+      assert (w' <> w) by (intros ->; rewrite (nth_error_feed_of _ _ _ Hnth) in Hw'; contradiction).
+      apply (Hother w' (ILeaf l)); auto. unfold item_target. cbn. rewrite Hpl. reflexivity.
 Qed.
 
 (** *** a new leaf *)
 Lemma GInv_new_leaf st w p c :
-  GInv st -> feed_of st w = [] -> tlookup p (st_tree st) = None -> conflicts st p = false ->
+  GInv st -> nth_error (st_feeds st) w = Some [] -> tlookup p (st_tree st) = None -> conflicts st p = false ->
   target_ok p = true -> star_free p = true -> agree_on st p = true ->
   (forall w' it, w' <> w -> In it (feed_of st w') -> item_target st it <> Some (target_of p)) ->
   GInv (mkState (st_leaves st ++ [(p, c)]) (st_dels st) (st_tree st ++ [(p, List.length (st_leaves st))])
                 (set_feed st w [ILeaf (List.length (st_leaves st))]) (st_subs st)).
 Proof.
-  intros G Hempty Hl Hc Ht Hs Ha Hother.
+  intros G Hnth Hl Hc Ht Hs Ha Hother.
+  assert (Hempty := nth_error_feed_of _ _ _ Hnth).
   set (l := List.length (st_leaves st)). set (st' := mkState _ _ _ _ _).
   assert (LPn : leaf_path st' l = Some p).
   { unfold leaf_path, st', l. cbn. rewrite nth_error_app2 by lia. rewrite Nat.sub_diag. reflexivity. }
@@ -483,4 +560,1406 @@ Proof.
     + intros it [<-|[]]. unfold item_target. cbn. fold l. change (leaf_path st' l) with (leaf_path st' l).
       unfold st' in LPn. rewrite LPn. reflexivity.
     + apply (g_feed_tgt _ G).
+  - unfold allfeed; cbn. apply NoDup_set_feed; auto; [apply (g_feed_nodup _ G)|repeat constructor; auto|].
+    intros x [<-|[]] Hin. unfold allfeed in Hin. apply in_concat in Hin as (f0 & Hf0 & Hin).
+    destruct (g_feed_leaf _ G _ _ Hf0 Hin) as (p0 & Hp0 & _).
+    unfold leaf_path in Hp0. destruct (nth_error (st_leaves st) l) eqn:X; [|discriminate].
+    assert (l < List.length (st_leaves st))%nat by (apply nth_error_Some; congruence). unfold l in *. lia.
+Qed.
+
+(** *** deletes *)
+Lemma In_remove_paths vs t x : In x (remove_paths vs t) ->
+  In x t /\ forall y, In y vs -> fst y <> fst x.
+Proof.
+  unfold remove_paths. intros H. apply filter_In in H as [H1 H2]. split; auto.
+  intros y Hy E. apply negb_true_iff in H2.
+  assert (existsb (fun x0 => path_eqb (fst x0) (fst x)) vs = true).
+  { apply existsb_exists. exists y. split; auto. apply path_eqb_eq. exact E. }
+  congruence.
+Qed.
+
+Lemma tlookup_remove_paths vs t p :
+  tlookup p (remove_paths vs t) = if existsb (fun x => path_eqb (fst x) p) vs then None else tlookup p t.
+Proof.
+  unfold remove_paths.
+  rewrite (tlookup_filter_fst (fun q => negb (existsb (fun x => path_eqb (fst x) q) vs))).
+  destruct (existsb _ vs); reflexivity.
+Qed.
+
+Lemma In_map_IDel_seq k k0 n : In (IDel k) (map IDel (seq k0 n)) -> (k0 <= k < k0 + n)%nat.
+Proof. intros H. apply in_map_iff in H as (x & [= ->] & H). apply in_seq in H. exact H. Qed.
+
+Lemma GInv_delete st w vs nd t :
+  GInv st -> nth_error (st_feeds st) w = Some [] ->
+  (forall x, In x vs -> In x (st_tree st) /\ target_of (fst x) = t) ->
+  (forall d ts, In (d, ts) nd -> target_ok d = true /\ target_of d = t /\
+      forall p l, In (p, l) (remove_paths vs (st_tree st)) -> covers d p = false) ->
+  (forall w' it, w' <> w -> In it (feed_of st w') -> item_target st it <> Some t) ->
+  GInv (mkState (st_leaves st) (st_dels st ++ nd) (remove_paths vs (st_tree st))
+                (set_feed st w (map IDel (seq (List.length (st_dels st)) (List.length nd)))) (st_subs st)).
+Proof.
+  intros G Hnth Hvs Hnd Hother.
+  assert (Hempty := nth_error_feed_of _ _ _ Hnth).
+  set (st' := mkState _ _ _ _ _).
+  assert (E : ext st st').
+  { intros [l'|k|] d; cbn; auto. apply option_map_nth_app. }
+  assert (NEW : forall k, In (IDel k) (map IDel (seq (List.length (st_dels st)) (List.length nd))) ->
+            exists d ts, In (d, ts) nd /\ item_pat st' (IDel k) = Some d).
+  { intros k Hk. apply In_map_IDel_seq in Hk. cbn.
+    rewrite nth_error_app2 by lia.
+    destruct (nth_error nd (k - List.length (st_dels st))) as [[d ts]|] eqn:X.
+    - exists d, ts. split; [eapply nth_error_In; eauto|reflexivity].
+    - apply nth_error_None in X. lia. }
+  assert (OLDW : forall f0 it, In f0 (st_feeds st) -> In it f0 -> exists w', w' <> w /\ feed_of st w' = f0).
+  { intros f0 it H1 H2. destruct (In_feed_of _ _ H1) as (w' & Hw' & _). exists w'. split; auto.
+    intros ->. rewrite Hempty in Hw'. subst. contradiction. }
+  constructor; cbn.
+  - apply NoDup_map_fst_filter. apply (g_nodup _ G).
+  - intros p l H. apply In_remove_paths in H as [H _]. apply (g_leaf _ G); auto.
+  - intros p l H. apply In_remove_paths in H as [H _]. apply (g_ok _ G _ _ H).
+  - intros p1 l1 p2 l2 H1 H2. apply In_remove_paths in H1 as [H1 _]. apply In_remove_paths in H2 as [H2 _].
+    eapply (g_pfree _ G); eauto.
+  - intros f0 it H1 H2. apply In_set_feed in H1 as [H1| ->].
+    + destruct (g_feed_wf _ G _ _ H1 H2) as (a & d & Hd & b). split; auto. exists d. split; auto.
+    + split; [intros ->; apply in_map_iff in H2 as (? & ? & _); discriminate|].
+      destruct it as [l|k|]; try (apply in_map_iff in H2 as (? & ? & _); discriminate).
+      destruct (NEW _ H2) as (d & ts & Hin & Hp). exists d. split; auto. apply (Hnd _ _ Hin).
+  - intros f0 l0 H1 H2. apply In_set_feed in H1 as [H1| ->];
+      [|apply in_map_iff in H2 as (? & ? & _); discriminate].
+    destruct (g_feed_leaf _ G _ _ H1 H2) as (p0 & Hp0 & Ht0). exists p0. split; [exact Hp0|].
+    rewrite tlookup_remove_paths.
+    destruct (existsb (fun x => path_eqb (fst x) p0) vs) eqn:X; [|exact Ht0]. exfalso.
+    apply existsb_exists in X as (x & Hx & Hxe). apply path_eqb_eq in Hxe.
+    destruct (OLDW _ _ H1 H2) as (w' & Hw' & Hf0).
+    apply (Hother w' (ILeaf l0) Hw'); [rewrite Hf0; exact H2|].
+    unfold item_target. cbn. rewrite Hp0. cbn. f_equal. rewrite <- Hxe. apply (Hvs _ Hx).
+  - intros f0 k d H1 H2 Hd p l H0. apply In_set_feed in H1 as [H1| ->].
+    + apply In_remove_paths in H0 as [H0 _].
+      destruct (g_feed_wf _ G _ _ H1 H2) as (_ & d' & Hd' & _).
+      assert (Hd'' := E _ _ Hd'). cbn in Hd, Hd''. rewrite Hd in Hd''. inversion Hd''; subst d'.
+      eapply (g_feed_del _ G); eauto.
+    + destruct (NEW _ H2) as (d' & ts & Hin & Hp). cbn in Hd, Hp. rewrite Hd in Hp. inversion Hp; subst d'.
+      eapply (Hnd _ _ Hin); eauto.
+  - apply (feed_tgt_set st _ _ _ _ w _ t); auto.
+    + apply wf_exists; auto.
+    + intros it Hit. destruct it as [l|k|]; try (apply in_map_iff in Hit as (? & ? & _); discriminate).
+      destruct (NEW _ Hit) as (d & ts & Hin & Hp). unfold item_target. fold st'. rewrite Hp. cbn. f_equal.
+      apply (Hnd _ _ Hin).
+    + apply (g_feed_tgt _ G).
+  - unfold allfeed; cbn. apply NoDup_set_feed; auto; [apply (g_feed_nodup _ G)| |].
+    + apply FinFun.Injective_map_NoDup; [intros x y [= ->]; reflexivity|apply seq_NoDup].
+    + intros x Hx Hin. destruct x as [l|k|]; try (apply in_map_iff in Hx as (? & ? & _); discriminate).
+      apply In_map_IDel_seq in Hx. unfold allfeed in Hin. apply in_concat in Hin as (f0 & Hf0 & Hin).
+      destruct (g_feed_wf _ G _ _ Hf0 Hin) as (_ & d & Hd & _). cbn in Hd.
+      destruct (nth_error (st_dels st) k) eqn:X; [|discriminate].
+      assert (k < List.length (st_dels st))%nat by (apply nth_error_Some; congruence). lia.
+Qed.
+
+Lemma leaf_cont_of_path st l p : leaf_path st l = Some p -> exists c, leaf_cont st l = Some c.
+Proof. unfold leaf_path, leaf_cont. destruct (nth_error (st_leaves st) l) as [[a b]|]; cbn; [eauto|discriminate]. Qed.
+
+Lemma In_victims st d cond x :
+  In x (victims st d cond) -> In x (st_tree st) /\ covers d (fst x) = true.
+Proof. unfold victims. intros H. apply filter_In in H as [H1 H2]. apply andb_true_iff in H2 as [H2 _]. auto. Qed.
+
+Lemma is_prefix_cases p q : is_prefix p q = true -> p = q \/ strict_prefix p q = true.
+Proof.
+  intros H. unfold strict_prefix. rewrite H. cbn. destruct (path_eqb p q) eqn:E; [left; apply path_eqb_eq; auto|right; reflexivity].
+Qed.
+
+Lemma write_GInv h st w o st' r :
+  strict h -> GInv st -> nth_error (st_feeds st) w = Some [] ->
+  in_flight_other st w (wop_target o) = false ->
+  write h st w o = Some (st', r) -> GInv st'.
+Proof.
+  intros [Howt Hag] G Hempty Hifo Hw.
+  assert (Hother := in_flight_other_false _ _ _ Hifo).
+  destruct o as [p v ts|d ts order|d]; cbn in Hw, Hother.
+  - destruct (target_ok p && star_free p) eqn:Hok; cbn in Hw; [|discriminate].
+    apply andb_true_iff in Hok as [Hok1 Hok2].
+    rewrite Hag in Hw. cbn in Hw.
+    destruct (agree_on st p) eqn:Hagp; cbn in Hw; [|discriminate].
+    destruct (tlookup p (st_tree st)) as [l|] eqn:Hl.
+    + destruct (leaf_cont st l) as [[v0 ts0]|]; [|discriminate].
+      destruct (ts <? ts0); [inversion Hw; subst; exact G|].
+      destruct ((ts =? ts0) && (v =? v0)); [inversion Hw; subst; exact G|].
+      inversion Hw; subst. apply (GInv_upd_existing st w p l (v, ts)); auto.
+      destruct (h_ed h && (v =? v0)); auto.
+    + destruct (conflicts st p) eqn:Hc; [inversion Hw; subst; exact G|].
+      inversion Hw; subst. apply GInv_new_leaf; auto.
+  - destruct (target_ok d) eqn:Hok; cbn in Hw; [|discriminate].
+    destruct (tree_locked st (target_of d)); [discriminate|].
+    inversion Hw; subst. clear Hw.
+    set (vs := reorder order (victims st d (fun c => snd c <? ts))).
+    replace (List.length vs) with (List.length (map (fun pl : path * nat => (fst pl, ts)) vs)) by apply map_length.
+    assert (Hvs : forall x, In x vs -> In x (st_tree st) /\ covers d (fst x) = true).
+    { intros x Hx. apply In_reorder in Hx. eapply In_victims; eauto. }
+    apply (GInv_delete st w vs _ (target_of d)); auto.
+    + intros x Hx. destruct (Hvs _ Hx) as [H1 H2]. split; auto. symmetry. apply covers_target; auto.
+    + intros d0 ts0 Hin. apply in_map_iff in Hin as ([pv lv] & [= <- <-] & Hin). cbn.
+      destruct (Hvs _ Hin) as [H1 H2]. cbn in H2.
+      destruct (g_ok _ G _ _ H1) as (a & b & _). split; auto. split; [symmetry; apply covers_target; auto|].
+      intros p l Hpl. apply In_remove_paths in Hpl as [Hpl Hne].
+      rewrite covers_star_free by assumption.
+      destruct (is_prefix pv p) eqn:X; [|reflexivity]. exfalso.
+      apply is_prefix_cases in X as [->|X].
+      * apply (Hne _ Hin). reflexivity.
+      * rewrite (g_pfree _ G _ _ _ _ H1 Hpl) in X. discriminate.
+  - destruct (target_ok d && star_free d) eqn:Hok; cbn in Hw; [|discriminate].
+    apply andb_true_iff in Hok as [Hok Hsf].
+    destruct (tree_locked st (target_of d)); [discriminate|].
+    inversion Hw; subst. clear Hw.
+    set (vs := victims st d (fun _ => true)).
+    apply (GInv_delete st w vs [(d ++ [star], 0)] (target_of d)); auto.
+    + intros x Hx. apply In_victims in Hx as [H1 H2]. split; auto. symmetry. apply covers_target; auto.
+    + intros d0 ts0 [[= <- <-]|[]]. split; [apply target_ok_app; auto|]. split; [apply target_of_app; auto|].
+      intros p l Hpl. apply In_remove_paths in Hpl as [Hpl Hne].
+      destruct (covers (d ++ [star]) p) eqn:X; [|reflexivity]. exfalso.
+      apply covers_app_star in X.
+      apply (Hne (p, l)); [|reflexivity].
+      unfold vs, victims. apply filter_In. split; auto. cbn. rewrite X. cbn.
+      destruct (leaf_cont_of_path _ _ _ (g_leaf _ G _ _ Hpl)) as [c ->]. reflexivity.
+Qed.
+
+(** ** The per-subscriber invariant *)
+
+Definition infl_list (sb : sub) : list item := match s_infl sb with Some (it, _) => [it] | None => [] end.
+Definition iq (sb : sub) : list item := infl_list sb ++ qitems (s_queue sb).
+Definition so (sb : sub) : list resp := s_sent sb ++ out_list sb.
+Definition reg_match (sb : sub) (p : path) : bool := existsb (fun q => compat q p) (regq sb).
+Definition is_del (it : item) : bool := match it with IDel _ => true | _ => false end.
+
+Definition walk_pending (sb : sub) (p : path) (l : nat) : Prop :=
+  s_uo sb = false /\
+  match s_pc sb with
+  | SReg _ => True
+  | SGap k => exists j q, (k <= j)%nat /\ nth_error (s_qs sb) j = Some q /\ covers q p = true
+  | SWalk k todo =>
+      (exists j q, (k < j)%nat /\ nth_error (s_qs sb) j = Some q /\ covers q p = true)
+      \/ (exists q, nth_error (s_qs sb) k = Some q /\ covers q p = true /\ In l todo)
+  | SDone => False
+  end.
+
+Definition conv (h : hyps) (st : state) (sb : sub) (p : path) : Prop :=
+  let IQp := filter (touches st p) (iq sb) in
+  let FP := filter (touches st p) (allfeed st) in
+  match tlookup p (st_tree st) with
+  | Some l =>
+      In (ILeaf l) (iq sb ++ allfeed st)
+      \/ (IQp = [] /\ FP = [] /\ exists c c', leaf_cont st l = Some c /\
+            replay_path p None (so sb) = Some c' /\ proj h c' = proj h c)
+      \/ walk_pending sb p l
+      \/ (s_uo sb = true /\ forallb is_del IQp = true /\ FP = [] /\ replay_path p None (so sb) = None)
+  | None =>
+      (FP <> [] \/ exists Y k, IQp = Y ++ [IDel k])
+      \/ (IQp = [] /\ FP = [] /\ replay_path p None (so sb) = None)
+  end.
+
+Record SInv (h : hyps) (st : state) (sb : sub) : Prop := {
+  s_excl : s_infl sb <> None -> s_out sb = None;
+  s_wf : forall it, In it (iq sb) -> it = ISync \/ exists d, item_pat st it = Some d;
+  s_regm1 : forall l p, In (ILeaf l) (iq sb) -> leaf_path st l = Some p -> reg_match sb p = true;
+  s_regm2 : forall p v ts d, In (RUpd p v ts d) (so sb) -> reg_match sb p = true;
+  s_fresh : forall k, In (IDel k) (iq sb) -> ~ In (IDel k) (allfeed st);
+  s_ord : forall p l, tlookup p (st_tree st) = Some l ->
+            exists X m, filter (touches st p) (iq sb) = X ++ repeat (ILeaf l) m /\ ~ In (ILeaf l) X;
+  s_conv : forall p, reg_match sb p = true -> conv h st sb p;
+}.
+
+Definition Inv (h : hyps) (st : state) : Prop :=
+  GInv st /\ forall i sb, nth_error (st_subs st) i = Some sb -> s_end sb = false -> SInv h st sb.
+
+(** *** facts about the pending lists *)
+
+Lemma touches_pat st p it : touches st p it = true -> exists d, item_pat st it = Some d.
+Proof. unfold touches. destruct it; destruct (item_pat st _); eauto; discriminate. Qed.
+
+Lemma feed_touch_attached st p l it :
+  GInv st -> tlookup p (st_tree st) = Some l -> In it (allfeed st) -> touches st p it = true -> it = ILeaf l.
+Proof.
+  intros G Hl Hin Ht. unfold allfeed in Hin. apply in_concat in Hin as (f & Hf & Hin).
+  destruct it as [l'|k|]; [| |discriminate].
+  - destruct (g_feed_leaf _ G _ _ Hf Hin) as (p' & Hp' & Ht').
+    unfold touches in Ht. cbn in Ht. rewrite Hp' in Ht. apply path_eqb_eq in Ht. subst. congruence.
+  - exfalso. unfold touches in Ht. destruct (item_pat st (IDel k)) eqn:X; [|discriminate].
+    rewrite (g_feed_del _ G _ _ _ Hf Hin X _ _ (tlookup_In _ _ _ Hl)) in Ht. discriminate.
+Qed.
+
+Lemma feed_touch_absent st p it :
+  GInv st -> tlookup p (st_tree st) = None -> In it (allfeed st) -> touches st p it = true -> is_del it = true.
+Proof.
+  intros G Hl Hin Ht. unfold allfeed in Hin. apply in_concat in Hin as (f & Hf & Hin).
+  destruct it as [l'|k|]; [|reflexivity|discriminate].
+  destruct (g_feed_leaf _ G _ _ Hf Hin) as (p' & Hp' & Ht').
+  unfold touches in Ht. cbn in Ht. rewrite Hp' in Ht. apply path_eqb_eq in Ht. subst. congruence.
+Qed.
+
+(** an announcement that touches a path a subscriber is registered for is
+    delivered to that subscriber *)
+Lemma touch_delivered st sb p it d :
+  reg_match sb p = true -> item_pat st it = Some d -> touches st p it = true -> mult sb d = 1%nat.
+Proof.
+  unfold reg_match, mult. intros Hr Hd Ht.
+  apply existsb_exists in Hr as (q & Hq & Hc).
+  assert (existsb (fun q => compat q d) (regq sb) = true) as ->; [|reflexivity].
+  apply existsb_exists. exists q. split; auto.
+  destruct it; unfold touches in Ht; try discriminate; rewrite Hd in Ht.
+  - apply path_eqb_eq in Ht. subst. exact Hc.
+  - eapply compat_covers; eauto.
+Qed.
+
+Lemma pending_touch st sb p :
+  reg_match sb p = true ->
+  filter (touches st p) (pending_feed st sb) = filter (touches st p) (allfeed st).
+Proof.
+  intros Hr. unfold pending_feed, allfeed. induction (st_feeds st) as [|f fs IH]; cbn [flat_map List.concat]; [reflexivity|].
+  rewrite !filter_app, IH. f_equal.
+  induction f as [|it f IHf]; cbn [filter]; [reflexivity|].
+  destruct (touches st p it) eqn:Ht.
+  - destruct (touches_pat _ _ _ Ht) as [d Hd]. rewrite Hd. rewrite (touch_delivered _ _ _ _ _ Hr Hd Ht).
+    cbn [Nat.ltb Nat.leb filter]. rewrite Ht. f_equal. exact IHf.
+  - destruct (item_pat st it) as [d|]; [|exact IHf]. destruct (0 <? mult sb d)%nat; cbn [filter]; [rewrite Ht|]; exact IHf.
+Qed.
+
+(** *** replaying materialised items *)
+
+Lemma replay_mat_filter st p its acc :
+  replay_path p acc (materialize st its) = replay_path p acc (materialize st (filter (touches st p) its)).
+Proof.
+  revert acc; induction its as [|it its IH]; intros acc; [reflexivity|].
+  unfold materialize in *. cbn [flat_map filter].
+  destruct (touches st p it) eqn:Ht.
+  - cbn [flat_map]. rewrite !replay_path_app. rewrite IH. reflexivity.
+  - rewrite replay_path_app, IH. f_equal.
+    unfold touches in Ht. destruct it as [l|k|]; cbn.
+    + unfold item_pat, leaf_path in Ht. destruct (nth_error (st_leaves st) l) as [[p' [v ts]]|]; cbn in *; [|reflexivity].
+      rewrite Ht. reflexivity.
+    + cbn in Ht. destruct (nth_error (st_dels st) k) as [[d ts]|]; cbn in *; [|reflexivity]. rewrite Ht. reflexivity.
+    + reflexivity.
+Qed.
+
+Lemma materialize_app st a b : materialize st (a ++ b) = materialize st a ++ materialize st b.
+Proof. unfold materialize. apply flat_map_app. Qed.
+
+Lemma replay_last_leaf st p l c its acc :
+  leaf_path st l = Some p -> leaf_cont st l = Some c ->
+  replay_path p acc (materialize st (its ++ [ILeaf l])) = Some c.
+Proof.
+  intros Hp Hc. rewrite materialize_app, replay_path_app. cbn.
+  unfold leaf_path, leaf_cont in *. destruct (nth_error (st_leaves st) l) as [[p' [v ts]]|]; cbn in *; [|discriminate].
+  inversion Hp; inversion Hc; subst. rewrite path_eqb_refl. reflexivity.
+Qed.
+
+Lemma replay_last_del st p k its acc :
+  touches st p (IDel k) = true ->
+  replay_path p acc (materialize st (its ++ [IDel k])) = None.
+Proof.
+  intros Ht. rewrite materialize_app, replay_path_app. cbn.
+  unfold touches in Ht. cbn in Ht. destruct (nth_error (st_dels st) k) as [[d ts]|]; cbn in *; [|discriminate].
+  rewrite Ht. reflexivity.
+Qed.
+
+Lemma all_del_last (L : list item) :
+  L <> [] -> (forall it, In it L -> is_del it = true) -> exists Y k, L = Y ++ [IDel k].
+Proof.
+  intros Hne H. destruct (exists_last Hne) as (Y & x & ->). exists Y.
+  assert (Hx : is_del x = true) by (apply H; apply in_app_iff; right; left; reflexivity).
+  destruct x; try discriminate. eauto.
+Qed.
+
+(** ** The invariant gives the statement *)
+
+Lemma tail_items_iq st sb : tail_items st sb = iq sb ++ pending_feed st sb.
+Proof. unfold tail_items, iq, infl_list, qitems. destruct (s_infl sb) as [[it d]|]; cbn; reflexivity. Qed.
+
+Lemma repeat_snoc {A} (x : A) n : repeat x (S n) = repeat x n ++ [x].
+Proof. induction n; cbn in *; [reflexivity|]. f_equal. exact IHn. Qed.
+
+Lemma sub_matches_reg sb p : s_pc sb = SDone -> sub_matches sb p = true -> reg_match sb p = true.
+Proof.
+  unfold sub_matches, reg_match, regq. intros -> H. apply existsb_exists in H as (q & Hq & Hc).
+  apply existsb_exists. exists q. split; auto. apply covers_compat. exact Hc.
+Qed.
+
+Lemma converged h st sb p :
+  GInv st -> SInv h st sb -> reg_match sb p = true ->
+  (match tlookup p (st_tree st) with Some l => ~ walk_pending sb p l | None => True end) ->
+  option_map (proj h) (replay_path p None (full_stream st sb)) = option_map (proj h) (cache_at st p)
+  \/ (s_uo sb = true /\ cache_at st p <> None /\ replay_path p None (full_stream st sb) = None).
+Proof.
+  intros G S Hr Hnw.
+  unfold full_stream. rewrite app_assoc. fold (so sb). rewrite replay_path_app, replay_mat_filter.
+  rewrite tail_items_iq, filter_app, (pending_touch _ _ _ Hr).
+  assert (C := s_conv _ _ _ S _ Hr). unfold conv in C. unfold cache_at.
+  destruct (tlookup p (st_tree st)) as [l|] eqn:Hl.
+  - assert (Hlp : leaf_path st l = Some p) by (eapply tlookup_leaf; eauto).
+    destruct (leaf_cont_of_path _ _ _ Hlp) as [c Hc]. rewrite Hc.
+    destruct (s_ord _ _ _ S _ _ Hl) as (X & m & HX & HnX).
+    assert (FPl : forall it, In it (filter (touches st p) (allfeed st)) -> it = ILeaf l).
+    { intros it Hit. apply filter_In in Hit as [H1 H2]. eapply feed_touch_attached; eauto. }
+    destruct C as [C|[C|[C|C]]].
+    + (* the leaf is still to come: it is the last item touching p *)
+      left.
+      assert (exists L0, filter (touches st p) (iq sb) ++ filter (touches st p) (allfeed st) = L0 ++ [ILeaf l])
+        as [L0 ->].
+      { destruct (filter (touches st p) (allfeed st)) as [|x F] eqn:EF.
+        - rewrite app_nil_r, HX. destruct m as [|m].
+          + exfalso. apply in_app_iff in C as [C|C].
+            * assert (In (ILeaf l) (filter (touches st p) (iq sb))).
+              { apply filter_In. split; auto. unfold touches. cbn. rewrite Hlp. apply path_eqb_refl. }
+              rewrite HX in H. cbn in H. rewrite app_nil_r in H. contradiction.
+            * assert (In (ILeaf l) (filter (touches st p) (allfeed st))).
+              { apply filter_In. split; auto. unfold touches. cbn. rewrite Hlp. apply path_eqb_refl. }
+              rewrite EF in H. contradiction.
+          + rewrite repeat_snoc, app_assoc. eauto.
+        - destruct (exists_last (l := x :: F)) as (F0 & y & EF'); [discriminate|].
+          rewrite EF'. assert (y = ILeaf l) as ->.
+          { apply FPl. rewrite EF'. apply in_app_iff. right. left. reflexivity. }
+          rewrite app_assoc. eauto. }
+      rewrite (replay_last_leaf _ _ _ _ _ _ Hlp Hc). reflexivity.
+    + left. destruct C as (E1 & E2 & c0 & c' & Hc0 & Hrep & Hpr). rewrite E1, E2. cbn.
+      rewrite Hrep. cbn. rewrite Hc in Hc0. inversion Hc0; subst. rewrite Hpr. reflexivity.
+    + contradiction.
+    + right. destruct C as (C1 & C2 & C3 & C4). split; auto. split; [discriminate|].
+      rewrite C3, app_nil_r.
+      destruct (filter (touches st p) (iq sb)) as [|y Q] eqn:EQ; [cbn; exact C4|].
+      destruct (all_del_last (y :: Q)) as (Y & k & EY); [discriminate| |].
+      * intros it Hit. rewrite forallb_forall in C2. apply C2. exact Hit.
+      * rewrite EY. apply replay_last_del.
+        assert (In (IDel k) (filter (touches st p) (iq sb))) by (rewrite EQ, EY; apply in_app_iff; right; left; reflexivity).
+        apply filter_In in H. tauto.
+  - left. destruct C as [[C|C]|C].
+    + assert (exists Y k, filter (touches st p) (iq sb) ++ filter (touches st p) (allfeed st) = Y ++ [IDel k]
+                          /\ touches st p (IDel k) = true) as (Y & k & -> & Hk).
+      { destruct (all_del_last (filter (touches st p) (allfeed st)) C) as (Y & k & EY).
+        - intros it Hit. apply filter_In in Hit as [H1 H2]. eapply feed_touch_absent; eauto.
+        - exists (filter (touches st p) (iq sb) ++ Y), k. rewrite EY, app_assoc. split; auto.
+          assert (In (IDel k) (filter (touches st p) (allfeed st))) by (rewrite EY; apply in_app_iff; right; left; reflexivity).
+          apply filter_In in H. tauto. }
+      rewrite (replay_last_del _ _ _ _ _ Hk). reflexivity.
+    + destruct C as (Y & k & EY).
+      destruct (filter (touches st p) (allfeed st)) as [|x F] eqn:EF.
+      * rewrite app_nil_r, EY.
+        assert (Hk : touches st p (IDel k) = true).
+        { assert (In (IDel k) (filter (touches st p) (iq sb))) by (rewrite EY; apply in_app_iff; right; left; reflexivity).
+          apply filter_In in H. tauto. }
+        rewrite (replay_last_del _ _ _ _ _ Hk). reflexivity.
+      * assert (exists Y' k', filter (touches st p) (iq sb) ++ x :: F = Y' ++ [IDel k']
+                          /\ touches st p (IDel k') = true) as (Y' & k' & -> & Hk).
+        { destruct (all_del_last (x :: F)) as (Y' & k' & EY'); [discriminate| |].
+          - intros it Hit. rewrite <- EF in Hit. apply filter_In in Hit as [H1 H2]. eapply feed_touch_absent; eauto.
+          - exists (filter (touches st p) (iq sb) ++ Y'), k'. rewrite EY', app_assoc. split; auto.
+            assert (In (IDel k') (filter (touches st p) (allfeed st))) by (rewrite EF, EY'; apply in_app_iff; right; left; reflexivity).
+            apply filter_In in H. tauto. }
+        rewrite (replay_last_del _ _ _ _ _ Hk). reflexivity.
+    + destruct C as (E1 & E2 & Hrep). rewrite E1, E2. cbn. rewrite Hrep. reflexivity.
+Qed.
+
+(** ** Preservation: framing *)
+
+Lemma SInv_frame h st st' sb :
+  st_leaves st' = st_leaves st -> st_dels st' = st_dels st -> st_tree st' = st_tree st ->
+  st_feeds st' = st_feeds st -> SInv h st sb -> SInv h st' sb.
+Proof.
+  destruct st as [a b c d e], st' as [a' b' c' d' e']. cbn. intros -> -> -> -> H.
+  destruct H as [H1 H2 H3 H4 H5 H6 H7]. constructor; assumption.
+Qed.
+
+Lemma map_upd_nth_same {A B} (f : A -> B) s x y (l : list A) :
+  nth_error l s = Some x -> f y = f x -> map f (upd_nth s (fun _ => y) l) = map f l.
+Proof.
+  revert s; induction l as [|a l IH]; intros [|s] H E; cbn in *; try discriminate.
+  - inversion H; subst. rewrite E. reflexivity.
+  - f_equal. auto.
+Qed.
+
+Lemma Inv_sub_step h st s sb sb' :
+  Inv h st -> nth_error (st_subs st) s = Some sb -> s_qs sb' = s_qs sb ->
+  (s_end sb' = false -> s_end sb = false) ->
+  (SInv h st sb -> s_end sb' = false -> SInv h st sb') ->
+  Inv h (set_subs st (upd_nth s (fun _ => sb') (st_subs st))).
+Proof.
+  intros [G S] Hs Hq He Hstep. split.
+  - apply GInv_set_subs; auto. apply (map_upd_nth_same s_qs _ _ _ _ Hs Hq).
+  - cbn. intros i sbi Hi Hend.
+    apply nth_error_upd_nth_inv in Hi as [(-> & x & Hx & ->)|(Hne & Hi)].
+    + apply (SInv_frame h st); auto. apply Hstep; auto. eapply S; eauto.
+    + apply (SInv_frame h st); auto. eapply S; eauto.
+Qed.
+
+(** *** a change of the subscriber's program counter only *)
+Lemma SInv_repc h st sb pc' snap' :
+  let sb' := mkSub (s_qs sb) (s_uo sb) pc' (s_queue sb) (s_infl sb) (s_out sb) (s_sent sb) snap' (s_end sb) in
+  regq sb' = regq sb ->
+  (forall p l, tlookup p (st_tree st) = Some l -> reg_match sb p = true -> walk_pending sb p l ->
+      walk_pending sb' p l \/ In (ILeaf l) (iq sb ++ allfeed st)) ->
+  SInv h st sb -> SInv h st sb'.
+Proof.
+  intros sb' Hreg Hwp [H1 H2 H3 H4 H5 H6 H7].
+  assert (RM : forall p, reg_match sb' p = reg_match sb p) by (intros p; unfold reg_match; rewrite Hreg; reflexivity).
+  constructor; auto.
+  - intros l p. rewrite RM. apply H3.
+  - intros p v ts d. rewrite RM. apply H4.
+  - intros p Hp. rewrite RM in Hp. specialize (H7 p Hp). unfold conv in *.
+    change (iq sb') with (iq sb). change (so sb') with (so sb). change (s_uo sb') with (s_uo sb).
+    destruct (tlookup p (st_tree st)) as [l|] eqn:Hl; [|exact H7].
+    destruct H7 as [C|[C|[C|C]]]; auto.
+    destruct (Hwp _ _ Hl Hp C); auto.
+Qed.
+
+Lemma iq_set_queue sb q :
+  iq (set_queue sb q) = infl_list sb ++ qitems q.
+Proof. reflexivity. Qed.
+
+Lemma iq_insert sb it :
+  iq (set_queue sb (q_insert it (s_queue sb)))
+  = if in_dec item_eq_dec it (qitems (s_queue sb)) then iq sb else iq sb ++ [it].
+Proof.
+  rewrite iq_set_queue, qitems_insert. unfold iq. destruct (in_dec _ _ _); [reflexivity|apply app_assoc].
+Qed.
+
+Lemma In_iq_insert sb it x :
+  In x (iq (set_queue sb (q_insert it (s_queue sb)))) <-> In x (iq sb) \/ (x = it).
+Proof.
+  rewrite iq_set_queue. unfold iq. rewrite !in_app_iff, In_qitems_insert. tauto.
+Qed.
+
+(** *** inserting the sync marker or an attached leaf into the queue *)
+Lemma SInv_insert h st sb it :
+  GInv st -> SInv h st sb ->
+  (it = ISync \/ exists l p, it = ILeaf l /\ tlookup p (st_tree st) = Some l /\ reg_match sb p = true) ->
+  SInv h st (set_queue sb (q_insert it (s_queue sb))).
+Proof.
+  intros G [H1 H2 H3 H4 H5 H6 H7] Hit.
+  set (sb' := set_queue sb (q_insert it (s_queue sb))).
+  assert (RM : forall p, reg_match sb' p = reg_match sb p) by reflexivity.
+  (* the items touching p after the insertion *)
+  assert (FI : forall p, filter (touches st p) (iq sb') = filter (touches st p) (iq sb)
+                \/ (touches st p it = true /\ ~ In it (qitems (s_queue sb)) /\
+                    filter (touches st p) (iq sb') = filter (touches st p) (iq sb) ++ [it])).
+  { intros p. unfold sb'. rewrite iq_insert. destruct (in_dec _ _ _) as [Hi|Hi]; [left; reflexivity|].
+    rewrite filter_app. cbn. destruct (touches st p it) eqn:Ht; [right; auto|left; apply app_nil_r]. }
+  assert (TI : forall p, touches st p it = true -> exists l, it = ILeaf l /\ tlookup p (st_tree st) = Some l).
+  { intros p Ht. destruct Hit as [->|(l & p0 & -> & Hl & _)]; [discriminate|].
+    exists l. split; auto. unfold touches in Ht. cbn in Ht. rewrite (tlookup_leaf _ _ _ G Hl) in Ht.
+    apply path_eqb_eq in Ht. subst. exact Hl. }
+  constructor; auto.
+  - intros x Hx. apply In_iq_insert in Hx as [Hx| ->]; auto.
+    destruct Hit as [->|(l & p & -> & Hl & _)]; auto. right. exists p. cbn. eapply tlookup_leaf; eauto.
+  - intros l p Hx Hp. rewrite RM. apply In_iq_insert in Hx as [Hx|Hx]; eauto.
+    destruct Hit as [->|(l0 & p0 & -> & Hl & Hr)]; [discriminate|]. inversion Hx; subst.
+    rewrite (tlookup_leaf _ _ _ G Hl) in Hp. inversion Hp; subst. exact Hr.
+  - intros k Hx. apply In_iq_insert in Hx as [Hx|Hx]; auto.
+    destruct Hit as [->|(l0 & p0 & -> & _)]; discriminate.
+  - intros p l Hl. destruct (H6 _ _ Hl) as (X & m & HX & HnX).
+    destruct (FI p) as [->|(Ht & _ & ->)]; eauto.
+    destruct (TI _ Ht) as (l' & -> & Hl'). assert (l' = l) by congruence. subst l'.
+    exists X, (S m). split; auto. rewrite HX, <- app_assoc, <- repeat_snoc. reflexivity.
+  - intros p Hp. rewrite RM in Hp. specialize (H7 p Hp). unfold conv in *.
+    change (so sb') with (so sb). change (s_uo sb') with (s_uo sb).
+    destruct (tlookup p (st_tree st)) as [l|] eqn:Hl.
+    + destruct (FI p) as [E|(Ht & Hni & E)].
+      * rewrite E. destruct H7 as [C|[C|[C|C]]]; auto.
+        left. apply in_app_iff in C as [C|C]; apply in_app_iff; auto. left. apply In_iq_insert. auto.
+      * left. destruct (TI _ Ht) as (l' & -> & Hl'). assert (l' = l) by congruence. subst.
+        apply in_app_iff. left. apply In_iq_insert. auto.
+    + destruct (FI p) as [E|(Ht & Hni & E)]; [rewrite E; exact H7|].
+      destruct (TI _ Ht) as (l' & _ & Hl'). congruence.
+Qed.
+
+(** *** a path the subscriber has heard nothing about *)
+Lemma conv_fresh h st sb p :
+  GInv st ->
+  (forall l, In (ILeaf l) (iq sb) -> leaf_path st l <> Some p) ->
+  (forall v ts d, ~ In (RUpd p v ts d) (so sb)) ->
+  (s_uo sb = false -> forall l, walk_pending sb p l) ->
+  conv h st sb p.
+Proof.
+  intros G Hq Hs Hw. unfold conv.
+  assert (IQdel : forall it, In it (filter (touches st p) (iq sb)) -> is_del it = true).
+  { intros it Hit. apply filter_In in Hit as [H1 H2]. destruct it as [l|k|]; [|reflexivity|discriminate].
+    exfalso. unfold touches in H2. cbn in H2. destruct (leaf_path st l) eqn:X; [|discriminate].
+    apply path_eqb_eq in H2. subst. eapply Hq; eauto. }
+  assert (Rep : replay_path p None (so sb) = None).
+  { apply replay_path_no_upd. intros p' v ts d Hin ->. eapply Hs; eauto. }
+  destruct (tlookup p (st_tree st)) as [l|] eqn:Hl.
+  - destruct (s_uo sb) eqn:Huo; [|right; right; left; auto].
+    destruct (filter (touches st p) (allfeed st)) as [|x F] eqn:EF.
+    + right. right. right. split; auto. split; auto. apply forallb_forall. exact IQdel.
+    + left. apply in_app_iff. right.
+      assert (Hx : In x (filter (touches st p) (allfeed st))) by (rewrite EF; left; reflexivity).
+      apply filter_In in Hx as [H1 H2]. rewrite (feed_touch_attached _ _ _ _ G Hl H1 H2) in H1. exact H1.
+  - destruct (filter (touches st p) (allfeed st)) as [|x F] eqn:EF; [|left; left; discriminate].
+    destruct (filter (touches st p) (iq sb)) as [|y Q] eqn:EQ; [right; auto|].
+    left. right. apply all_del_last; [discriminate|exact IQdel].
+Qed.
+
+Lemma firstn_S_In {A} k (l : list A) x : In x (firstn k l) -> In x (firstn (S k) l).
+Proof.
+  revert k; induction l as [|a l IH]; intros [|k]; cbn; auto; try tauto. intros [H|H]; auto.
+  right. apply IH. exact H.
+Qed.
+
+(** *** LReg *)
+Lemma SInv_reg h st sb k :
+  GInv st -> s_pc sb = SReg k -> SInv h st sb -> SInv h st (set_pc sb (SReg (S k))).
+Proof.
+  intros G Hpc [H1 H2 H3 H4 H5 H6 H7].
+  set (sb' := set_pc sb (SReg (S k))).
+  assert (RM : forall p, reg_match sb p = true -> reg_match sb' p = true).
+  { intros p. unfold reg_match, regq, sb'. rewrite Hpc. cbn. intros H.
+    apply existsb_exists in H as (q & Hq & Hc). apply existsb_exists. exists q. split; auto. apply firstn_S_In. exact Hq. }
+  constructor; auto.
+  - intros l p Hx Hp. apply RM. eauto.
+  - intros p v ts d Hx. apply RM. eauto.
+  - intros p Hp. destruct (reg_match sb p) eqn:Hold.
+    + specialize (H7 p Hold). unfold conv in *.
+      change (iq sb') with (iq sb). change (so sb') with (so sb). change (s_uo sb') with (s_uo sb).
+      destruct (tlookup p (st_tree st)) as [l|]; auto.
+      destruct H7 as [C|[C|[C|C]]]; auto. right. right. left. destruct C as [C _]. split; auto. exact I.
+    + apply conv_fresh; auto.
+      * intros l Hl Hlp. change (iq sb') with (iq sb) in Hl. rewrite (H3 _ _ Hl Hlp) in Hold. discriminate.
+      * intros v ts d Hin. change (so sb') with (so sb) in Hin. rewrite (H4 _ _ _ _ Hin) in Hold. discriminate.
+      * intros Huo l. split; auto. exact I.
+Qed.
+
+(** *** LDeq *)
+Lemma SInv_deq h st sb x q' :
+  s_infl sb = None -> s_out sb = None -> s_queue sb = x :: q' -> SInv h st sb ->
+  SInv h st (mkSub (s_qs sb) (s_uo sb) (s_pc sb) q' (Some x) None (s_sent sb) (s_snap sb) false).
+Proof.
+  intros Hi Ho Hq [H1 H2 H3 H4 H5 H6 H7].
+  set (sb' := mkSub _ _ _ _ _ _ _ _ _).
+  assert (Eiq : iq sb' = iq sb).
+  { unfold iq, infl_list, sb'. cbn. rewrite Hi, Hq. destruct x. reflexivity. }
+  assert (Eso : so sb' = so sb).
+  { unfold so, out_list, sb'. cbn. rewrite Ho. reflexivity. }
+  constructor; try rewrite Eiq; try rewrite Eso; auto.
+  intros p Hp. specialize (H7 p Hp). unfold conv in *. rewrite Eiq, Eso. exact H7.
+Qed.
+
+(** *** LSent *)
+Lemma SInv_sent h st sb r :
+  s_out sb = Some r -> SInv h st sb ->
+  SInv h st (mkSub (s_qs sb) (s_uo sb) (s_pc sb) (s_queue sb) None None (s_sent sb ++ [r]) (s_snap sb) false).
+Proof.
+  intros Ho [H1 H2 H3 H4 H5 H6 H7].
+  set (sb' := mkSub _ _ _ _ _ _ _ _ _).
+  assert (Hi : s_infl sb = None).
+  { destruct (s_infl sb) eqn:X; auto. assert (s_out sb = None) by (apply H1; congruence). congruence. }
+  assert (Eiq : iq sb' = iq sb).
+  { unfold iq, infl_list, sb'. cbn. rewrite Hi. reflexivity. }
+  assert (Eso : so sb' = so sb).
+  { unfold so, out_list, sb'. cbn. rewrite Ho, app_nil_r. reflexivity. }
+  constructor; try rewrite Eiq; try rewrite Eso; auto.
+  intros p Hp. specialize (H7 p Hp). unfold conv in *. rewrite Eiq, Eso. exact H7.
+Qed.
+
+(** *** LRead *)
+Lemma build_untouched st p it d r acc rs :
+  touches st p it = false -> build st it d = Some r ->
+  replay_path p acc (rs ++ [r]) = replay_path p acc rs.
+Proof.
+  intros Ht Hb. rewrite replay_path_app. destruct it as [l|k|]; cbn in Hb.
+  - unfold touches, item_pat, leaf_path in Ht.
+    destruct (nth_error (st_leaves st) l) as [[p' [v ts]]|]; [|discriminate]. inversion Hb; subst. cbn in *. rewrite Ht. reflexivity.
+  - unfold touches, item_pat in Ht.
+    destruct (nth_error (st_dels st) k) as [[d' ts]|]; [|discriminate]. inversion Hb; subst. cbn in *. rewrite Ht. reflexivity.
+  - inversion Hb; subst. reflexivity.
+Qed.
+
+Lemma build_leaf st p l d r acc rs c :
+  leaf_path st l = Some p -> leaf_cont st l = Some c -> build st (ILeaf l) d = Some r ->
+  replay_path p acc (rs ++ [r]) = Some c /\ exists v ts, r = RUpd p v ts d.
+Proof.
+  intros Hp Hc Hb. rewrite replay_path_app. cbn in Hb. unfold leaf_path, leaf_cont in *.
+  destruct (nth_error (st_leaves st) l) as [[p' [v ts]]|]; [|discriminate]. cbn in *.
+  inversion Hp; inversion Hc; inversion Hb; subst. cbn. rewrite path_eqb_refl. eauto.
+Qed.
+
+Lemma build_del st p k d r acc rs :
+  touches st p (IDel k) = true -> build st (IDel k) d = Some r ->
+  replay_path p acc (rs ++ [r]) = None.
+Proof.
+  intros Ht Hb. rewrite replay_path_app. cbn in Hb. unfold touches, item_pat in Ht.
+  destruct (nth_error (st_dels st) k) as [[d' ts]|]; [|discriminate]. inversion Hb; subst. cbn in *. rewrite Ht. reflexivity.
+Qed.
+
+Lemma SInv_read h st sb it d r :
+  GInv st -> s_infl sb = Some (it, d) -> build st it d = Some r -> SInv h st sb ->
+  SInv h st (mkSub (s_qs sb) (s_uo sb) (s_pc sb) (s_queue sb) None (Some r) (s_sent sb) (s_snap sb) false).
+Proof.
+  intros G Hi Hb [H1 H2 H3 H4 H5 H6 H7].
+  set (sb' := mkSub _ _ _ _ _ _ _ _ _).
+  assert (Ho : s_out sb = None) by (apply H1; congruence).
+  assert (Eiq : iq sb = it :: iq sb').
+  { unfold iq, infl_list, sb'. cbn. rewrite Hi. reflexivity. }
+  assert (Eso : so sb' = so sb ++ [r]).
+  { unfold so, out_list, sb'. cbn. rewrite Ho, app_nil_r. reflexivity. }
+  assert (RM : forall p, reg_match sb' p = reg_match sb p) by reflexivity.
+  assert (Sub : forall x, In x (iq sb') -> In x (iq sb)) by (intros x Hx; rewrite Eiq; right; exact Hx).
+  constructor; auto.
+  - intros H; exfalso; apply H; reflexivity.
+  - intros l p Hx. rewrite RM. apply H3. auto.
+  - intros p v ts d0 Hx. rewrite RM. rewrite Eso in Hx. apply in_app_iff in Hx as [Hx|[Hx|[]]]; eauto.
+    destruct it as [l|k|]; cbn in Hb.
+    + destruct (nth_error (st_leaves st) l) as [[p' [v' ts']]|] eqn:X; [|discriminate].
+      subst r. inversion Hb; subst. apply (H3 l); [rewrite Eiq; left; reflexivity|].
+      unfold leaf_path. rewrite X. reflexivity.
+    + destruct (nth_error (st_dels st) k) as [[d' ts']|]; [|discriminate]. subst r. discriminate.
+    + subst r. discriminate.
+  - intros p l Hl. destruct (H6 _ _ Hl) as (X & m & HX & HnX). rewrite Eiq in HX. cbn [filter] in HX.
+    destruct (touches st p it) eqn:Ht; [|eauto].
+    destruct X as [|x X].
+    + destruct m as [|m]; [discriminate|]. cbn in HX. inversion HX. exists [], m. split; auto.
+    + cbn in HX. inversion HX. exists X, m. split; auto. intros Hin. apply HnX. right. exact Hin.
+  - intros p Hp. rewrite RM in Hp. specialize (H7 p Hp). unfold conv in *.
+    change (s_uo sb') with (s_uo sb). rewrite Eso. rewrite Eiq in H7. cbn [filter] in H7.
+    assert (WP : forall l, walk_pending sb' p l = walk_pending sb p l) by reflexivity.
+    destruct (touches st p it) eqn:Ht.
+    + (* the item read touches p *)
+      destruct (tlookup p (st_tree st)) as [l|] eqn:Hl.
+      * assert (Hlp : leaf_path st l = Some p) by (eapply tlookup_leaf; eauto).
+        destruct (item_eq_dec it (ILeaf l)) as [->|Hne].
+        -- (* it is the attached leaf itself *)
+           destruct (in_dec item_eq_dec (ILeaf l) (iq sb' ++ allfeed st)) as [Hin|Hnin]; [left; exact Hin|].
+           right. left.
+           destruct (leaf_cont_of_path _ _ _ Hlp) as [c Hc].
+           destruct (build_leaf _ _ _ _ _ None (so sb) _ Hlp Hc Hb) as [Hrep _].
+           destruct (H6 _ _ Hl) as (X & m & HX & HnX). rewrite Eiq in HX. cbn [filter] in HX. rewrite Ht in HX.
+           assert (X = []) as ->.
+           { destruct X as [|x X]; auto. cbn in HX. inversion HX; subst. exfalso. apply HnX. left. reflexivity. }
+           destruct m as [|m]; [discriminate|]. cbn in HX. inversion HX as [HX'].
+           change (keys (s_queue sb)) with (iq sb') in HX'.
+           assert (m = 0%nat) as ->.
+           { destruct m as [|m]; auto. exfalso. apply Hnin. apply in_app_iff. left.
+             assert (In (ILeaf l) (filter (touches st p) (iq sb'))) by (rewrite HX'; left; reflexivity).
+             apply filter_In in H. tauto. }
+           split; [exact HX'|]. split.
+           ++ destruct (filter (touches st p) (allfeed st)) as [|x F] eqn:EF; auto. exfalso.
+              assert (Hx : In x (filter (touches st p) (allfeed st))) by (rewrite EF; left; reflexivity).
+              apply filter_In in Hx as [Hx1 Hx2]. rewrite (feed_touch_attached _ _ _ _ G Hl Hx1 Hx2) in Hx1.
+              apply Hnin. apply in_app_iff. auto.
+           ++ exists c, c. auto.
+        -- (* another item touching p: a delete, or an older leaf of the same path *)
+           destruct H7 as [C|[C|[C|C]]].
+           ++ left. apply in_app_iff in C as [C|C]; apply in_app_iff; auto. destruct C as [C|C]; auto. congruence.
+           ++ destruct C as [C _]. discriminate.
+           ++ right. right. left. exact C.
+           ++ destruct C as (C1 & C2 & C3 & C4). cbn in C2. apply andb_true_iff in C2 as [C2 C2'].
+              destruct it as [l'|k|]; try discriminate.
+              right. right. right. split; auto. split; auto. split; auto. eapply build_del; eauto.
+      * destruct H7 as [[C|C]|C].
+        -- left. left. exact C.
+        -- destruct C as (Y & k & EY).
+           destruct (filter (touches st p) (iq sb')) as [|y Q] eqn:EQ.
+           ++ destruct Y as [|y' Y]; [|destruct Y; discriminate]. cbn in EY. inversion EY; subst.
+              destruct (filter (touches st p) (allfeed st)) eqn:EF; [|left; left; discriminate].
+              right. split; auto. split; auto. eapply build_del; eauto.
+           ++ left. right. destruct Y as [|y' Y]; [discriminate|]. cbn in EY. inversion EY. eauto.
+        -- destruct C as [C _]. discriminate.
+    + (* it does not touch p *)
+      rewrite (build_untouched _ _ _ _ _ _ _ Ht Hb).
+      destruct (tlookup p (st_tree st)) as [l|] eqn:Hl; [|exact H7].
+      destruct H7 as [C|[C|[C|C]]]; auto.
+      left. apply in_app_iff in C as [C|C]; apply in_app_iff; auto. destruct C as [C|C]; auto.
+      subst it. unfold touches in Ht. cbn in Ht. rewrite (tlookup_leaf _ _ _ G Hl), path_eqb_refl in Ht. discriminate.
+Qed.
+
+(** ** Preservation: the feed callback *)
+
+Lemma q_insert_n_mult sb pat it q :
+  q_insert_n (mult sb pat) it q = if existsb (fun q0 => compat q0 pat) (regq sb) then q_insert it q else q.
+Proof. unfold mult. destruct (existsb _ _); reflexivity. Qed.
+
+Lemma filter_remove_one {A} (g : A -> bool) (a rest b : list A) x :
+  g x = false -> filter g (a ++ (x :: rest) ++ b) = filter g (a ++ rest ++ b).
+Proof. intros H. rewrite !filter_app. cbn. rewrite H. reflexivity. Qed.
+
+Lemma SInv_feed h st w it rest ss' sb :
+  let st' := mkState (st_leaves st) (st_dels st) (st_tree st) (set_feed st w rest) ss' in
+  GInv st -> nth_error (st_feeds st) w = Some (it :: rest) ->
+  SInv h st sb -> s_end sb = false -> SInv h st' (deliver st it sb).
+Proof.
+  intros st' G Hw [H1 H2 H3 H4 H5 H6 H7] Hend.
+  destruct (concat_upd_nth _ _ _ Hw) as (a & b & E1 & E2).
+  assert (AF : allfeed st = a ++ (it :: rest) ++ b) by exact E1.
+  assert (AF' : allfeed st' = a ++ rest ++ b) by (unfold allfeed, st', set_feed; cbn; apply E2).
+  assert (Hitf : In it (allfeed st)) by (rewrite AF; apply in_app_iff; right; left; reflexivity).
+  assert (ND : NoDup (allfeed st)) by apply (g_feed_nodup _ G).
+  assert (Hnit : ~ In it (allfeed st')).
+  { rewrite AF'. rewrite AF in ND. apply NoDup_remove_2 in ND. exact ND. }
+  assert (Sub : forall x, In x (allfeed st') -> In x (allfeed st)).
+  { intros x. rewrite AF, AF', !in_app_iff. cbn. tauto. }
+  assert (Sup : forall x, In x (allfeed st) -> x = it \/ In x (allfeed st')).
+  { intros x. rewrite AF, AF', !in_app_iff. cbn. intuition. }
+  assert (Hf : In (it :: rest) (st_feeds st)) by (eapply nth_error_In; eauto).
+  destruct (g_feed_wf _ G _ _ Hf (or_introl eq_refl)) as (Hns & pat & Hpat & Hpok).
+  unfold deliver. rewrite Hpat. rewrite Hend at 1. rewrite q_insert_n_mult.
+  assert (T : forall p x, touches st' p x = touches st p x) by reflexivity.
+  destruct (existsb (fun q0 => compat q0 pat) (regq sb)) eqn:Hm.
+  - (* delivered *)
+    fold (set_queue sb (q_insert it (s_queue sb))).
+    set (sb' := set_queue sb (q_insert it (s_queue sb))).
+    assert (RM : forall p, reg_match sb' p = reg_match sb p) by reflexivity.
+    assert (FI : forall p, filter (touches st p) (iq sb') = filter (touches st p) (iq sb)
+                \/ (touches st p it = true /\ ~ In it (qitems (s_queue sb)) /\
+                    filter (touches st p) (iq sb') = filter (touches st p) (iq sb) ++ [it])).
+    { intros p. unfold sb'. rewrite iq_insert. destruct (in_dec _ _ _) as [Hi|Hi]; [left; reflexivity|].
+      rewrite filter_app. cbn. destruct (touches st p it) eqn:Ht; [right; auto|left; apply app_nil_r]. }
+    constructor; auto.
+    + intros x Hx. apply In_iq_insert in Hx as [Hx| ->]; [exact (H2 _ Hx)|]. right. exists pat. exact Hpat.
+    + intros l p Hx Hp. rewrite RM. apply In_iq_insert in Hx as [Hx|Hx]; [eapply H3; eauto|].
+      subst it. cbn in Hpat. change (leaf_path st' l) with (leaf_path st l) in Hp. rewrite Hp in Hpat. inversion Hpat; subst.
+      exact Hm.
+    + intros k Hx Hin. apply In_iq_insert in Hx as [Hx|Hx].
+      * apply (H5 _ Hx). apply Sub. exact Hin.
+      * rewrite Hx in Hin. contradiction.
+    + intros p l Hl. change (tlookup p (st_tree st) = Some l) in Hl.
+      destruct (H6 _ _ Hl) as (X & m & HX & HnX).
+      change (filter (touches st' p) (iq sb')) with (filter (touches st p) (iq sb')).
+      destruct (FI p) as [->|(Ht & _ & ->)]; eauto.
+      rewrite (feed_touch_attached _ _ _ _ G Hl Hitf Ht).
+      exists X, (S m). split; auto. rewrite HX, <- app_assoc, <- repeat_snoc. reflexivity.
+    + intros p Hp. rewrite RM in Hp. specialize (H7 p Hp). unfold conv in *.
+      change (so sb') with (so sb). change (s_uo sb') with (s_uo sb).
+      change (tlookup p (st_tree st')) with (tlookup p (st_tree st)).
+      change (filter (touches st' p) (iq sb')) with (filter (touches st p) (iq sb')).
+      change (filter (touches st' p) (allfeed st')) with (filter (touches st p) (allfeed st')).
+      assert (WP : forall l, walk_pending sb' p l = walk_pending sb p l) by reflexivity.
+      destruct (touches st p it) eqn:Ht.
+      * destruct (tlookup p (st_tree st)) as [l|] eqn:Hl.
+        -- left. assert (Eit := feed_touch_attached _ _ _ _ G Hl Hitf Ht).
+           apply in_app_iff. left. apply In_iq_insert. right. symmetry. exact Eit.
+        -- left. right.
+           assert (Hd := feed_touch_absent _ _ _ G Hl Hitf Ht). destruct it as [|k|]; try discriminate.
+           destruct (FI p) as [E|(_ & _ & E)].
+           ++ exfalso. unfold sb' in E. rewrite iq_insert in E.
+              destruct (in_dec item_eq_dec (IDel k) (qitems (s_queue sb))) as [Hi|Hi].
+              ** apply (H5 k); auto. unfold iq. apply in_app_iff. auto.
+              ** rewrite filter_app in E. cbn [filter] in E. rewrite Ht in E.
+                 apply (f_equal (@List.length item)) in E. rewrite app_length in E. cbn in E. lia.
+           ++ rewrite E. eauto.
+      * assert (EF : filter (touches st p) (allfeed st') = filter (touches st p) (allfeed st)).
+        { rewrite AF, AF'. symmetry. apply filter_remove_one. exact Ht. }
+        assert (EQ : filter (touches st p) (iq sb') = filter (touches st p) (iq sb)).
+        { destruct (FI p) as [E|(Ht' & _)]; [exact E|congruence]. }
+        rewrite EF, EQ.
+        destruct (tlookup p (st_tree st)) as [l|] eqn:Hl; [|exact H7].
+        destruct H7 as [C|[C|[C|C]]]; auto.
+        left. apply in_app_iff in C as [C|C]; apply in_app_iff.
+        -- left. apply In_iq_insert. auto.
+        -- destruct (Sup _ C) as [Eit|C']; auto. rewrite <- Eit in Ht.
+           unfold touches in Ht. cbn in Ht. rewrite (tlookup_leaf _ _ _ G Hl), path_eqb_refl in Ht. discriminate.
+  - (* not addressed to this subscriber *)
+    assert (Esb : mkSub (s_qs sb) (s_uo sb) (s_pc sb) (s_queue sb) (s_infl sb) (s_out sb) (s_sent sb) (s_snap sb) (s_end sb) = sb)
+      by (destruct sb; reflexivity).
+    rewrite Esb.
+    assert (NT : forall p, reg_match sb p = true -> touches st p it = false).
+    { intros p Hp. destruct (touches st p it) eqn:Ht; auto.
+      assert (X := touch_delivered _ _ _ _ _ Hp Hpat Ht). unfold mult in X. rewrite Hm in X. discriminate. }
+    constructor; auto.
+    + intros k Hx Hin. apply (H5 _ Hx). apply Sub. exact Hin.
+    + intros p Hp. specialize (H7 p Hp). unfold conv in *.
+      change (tlookup p (st_tree st')) with (tlookup p (st_tree st)).
+      change (filter (touches st' p) (iq sb)) with (filter (touches st p) (iq sb)).
+      change (filter (touches st' p) (allfeed st')) with (filter (touches st p) (allfeed st')).
+      assert (EF : filter (touches st p) (allfeed st') = filter (touches st p) (allfeed st)).
+      { rewrite AF, AF'. symmetry. apply filter_remove_one. apply NT. exact Hp. }
+      rewrite EF.
+      destruct (tlookup p (st_tree st)) as [l|] eqn:Hl; [|exact H7].
+      destruct H7 as [C|[C|[C|C]]]; auto.
+      left. apply in_app_iff in C as [C|C]; apply in_app_iff; auto.
+      destruct (Sup _ C) as [Eit|C']; auto.
+      assert (Ht := NT _ Hp). rewrite <- Eit in Ht. unfold touches in Ht. cbn in Ht.
+      rewrite (tlookup_leaf _ _ _ G Hl), path_eqb_refl in Ht. discriminate.
+Qed.
+
+(** ** Preservation: writes *)
+
+Lemma touches_ext st st' p x :
+  ext st st' -> (x = ISync \/ exists d, item_pat st x = Some d) -> touches st' p x = touches st p x.
+Proof.
+  intros E [->|[d Hd]]; [reflexivity|]. assert (Hd' := E _ _ Hd).
+  destruct x; unfold touches; try reflexivity; rewrite Hd, Hd'; reflexivity.
+Qed.
+
+Lemma filter_touches_ext st st' p L :
+  ext st st' -> (forall x, In x L -> x = ISync \/ exists d, item_pat st x = Some d) ->
+  filter (touches st' p) L = filter (touches st p) L.
+Proof.
+  intros E H. apply filter_ext_in. intros x Hx. apply touches_ext; auto.
+Qed.
+
+Lemma allfeed_wf st : GInv st -> forall x, In x (allfeed st) -> x = ISync \/ exists d, item_pat st x = Some d.
+Proof.
+  intros G x Hx. unfold allfeed in Hx. apply in_concat in Hx as (f & Hf & Hx).
+  destruct (g_feed_wf _ G _ _ Hf Hx) as (_ & d & Hd & _). eauto.
+Qed.
+
+Lemma filter_insert_none {A} (g : A -> bool) (a f b : list A) :
+  (forall x, In x f -> g x = false) -> filter g (a ++ f ++ b) = filter g (a ++ b).
+Proof.
+  intros H. rewrite !filter_app. f_equal.
+  assert (filter g f = []) as ->; [|reflexivity].
+  induction f as [|x f IH]; cbn; auto. rewrite (H x) by (left; reflexivity). apply IH. intros; apply H; right; auto.
+Qed.
+
+Lemma proj_suppressed h v v0 ts ts0 : h_ed h && (v =? v0) = true -> proj h (v, ts) = proj h (v0, ts0).
+Proof.
+  intros H. apply andb_true_iff in H as [H1 H2]. apply Z.eqb_eq in H2. subst. unfold proj. rewrite H1. reflexivity.
+Qed.
+
+(** the generic shape of a write seen from one subscriber: the stores only
+    grow, the subscriber's own items keep their meaning, the writer's pending
+    list [f] is inserted among the others *)
+Section WriteStep.
+Variables (h : hyps) (st st' : state) (sb : sub) (a b f : list item).
+Hypothesis G : GInv st.
+Hypothesis G' : GInv st'.
+Hypothesis E : ext st st'.
+Hypothesis AF : allfeed st = a ++ b.
+Hypothesis AF' : allfeed st' = a ++ f ++ b.
+Hypothesis S : SInv h st sb.
+
+Lemma ws_iq p : filter (touches st' p) (iq sb) = filter (touches st p) (iq sb).
+Proof. apply filter_touches_ext; auto. apply (s_wf _ _ _ S). Qed.
+
+Lemma ws_sub x : In x (allfeed st) -> In x (allfeed st').
+Proof. rewrite AF, AF', !in_app_iff. tauto. Qed.
+
+Lemma ws_fp p : (forall x, In x f -> touches st' p x = false) ->
+  filter (touches st' p) (allfeed st') = filter (touches st p) (allfeed st).
+Proof.
+  intros H. rewrite AF', (filter_insert_none _ _ _ _ H), <- AF.
+  apply filter_touches_ext; auto. apply allfeed_wf; auto.
+Qed.
+
+(** fields that do not depend on the case *)
+Lemma ws_common :
+  (forall k, In (IDel k) f -> ~ In (IDel k) (iq sb)) ->
+  (s_infl sb <> None -> s_out sb = None) /\
+  (forall it, In it (iq sb) -> it = ISync \/ exists d, item_pat st' it = Some d) /\
+  (forall l p, In (ILeaf l) (iq sb) -> leaf_path st' l = Some p -> reg_match sb p = true) /\
+  (forall k, In (IDel k) (iq sb) -> ~ In (IDel k) (allfeed st')).
+Proof.
+  intros Hfresh. destruct S as [H1 H2 H3 H4 H5 H6 H7]. repeat split; auto.
+  - intros it Hit. destruct (H2 _ Hit) as [?|[d Hd]]; auto. right. exists d. apply E. exact Hd.
+  - intros l p Hl Hp. destruct (H2 _ Hl) as [?|[d Hd]]; [discriminate|].
+    assert (X := E _ _ Hd). cbn in X, Hd. rewrite Hp in X. inversion X; subst. eapply H3; eauto.
+  - intros k Hk Hin. rewrite AF', !in_app_iff in Hin.
+    assert (~ In (IDel k) (allfeed st)) by (apply H5; auto). rewrite AF, in_app_iff in H.
+    destruct Hin as [?|[?|?]]; try tauto. eapply Hfresh; eauto.
+Qed.
+
+End WriteStep.
+
+Lemma SInv_upd_existing h st w p0 l0 c f sb :
+  let st' := mkState (upd_nth l0 (fun pc => (fst pc, c)) (st_leaves st)) (st_dels st) (st_tree st)
+                     (set_feed st w f) (st_subs st) in
+  GInv st -> GInv st' -> nth_error (st_feeds st) w = Some [] -> tlookup p0 (st_tree st) = Some l0 ->
+  (f = [ILeaf l0] \/ (f = [] /\ forall c0, leaf_cont st l0 = Some c0 -> proj h c = proj h c0)) ->
+  SInv h st sb -> SInv h st' sb.
+Proof.
+  intros st' G G' Hw Hl0 Hf S.
+  destruct (allfeed_set_feed st w f Hw) as (a & b & AF & AF0).
+  assert (AF' : allfeed st' = a ++ f ++ b) by exact AF0.
+  assert (IP : forall it, item_pat st' it = item_pat st it).
+  { intros [l'|k|]; cbn; auto. unfold leaf_path. cbn. apply leaf_path_upd. }
+  assert (E : ext st st') by (intros it d; rewrite IP; auto).
+  assert (Hp0 : leaf_path st l0 = Some p0) by (eapply tlookup_leaf; eauto).
+  assert (TF : forall p x, In x f -> touches st' p x = true -> p = p0 /\ f = [ILeaf l0]).
+  { intros p x Hx Ht. destruct Hf as [->|[-> _]]; [|contradiction]. destruct Hx as [<-|[]].
+    unfold touches in Ht. rewrite IP in Ht. cbn in Ht. rewrite Hp0 in Ht. apply path_eqb_eq in Ht. auto. }
+  assert (Hfresh : forall k, In (IDel k) f -> ~ In (IDel k) (iq sb)).
+  { intros k Hk. destruct Hf as [->|[-> _]]; [destruct Hk as [?|[]]; discriminate|contradiction]. }
+  destruct (ws_common h st st' sb a b f E AF AF' S Hfresh) as (C1 & C2 & C3 & C4).
+  assert (H6 := s_ord _ _ _ S). assert (H7 := s_conv _ _ _ S). assert (H4 := s_regm2 _ _ _ S).
+  constructor; auto.
+  - intros p l Hl. change (tlookup p (st_tree st) = Some l) in Hl.
+    rewrite (ws_iq h st st' sb E S). eauto.
+  - intros p Hp. specialize (H7 p Hp). unfold conv in *.
+    change (tlookup p (st_tree st')) with (tlookup p (st_tree st)).
+    rewrite (ws_iq h st st' sb E S).
+    destruct (existsb (fun x => touches st' p x) f) eqn:Hex.
+    + apply existsb_exists in Hex as (x & Hx & Ht). destruct (TF _ _ Hx Ht) as [-> ->].
+      rewrite Hl0. left. apply in_app_iff. right. rewrite AF'. apply in_app_iff. right. left. reflexivity.
+    + assert (NF : forall x, In x f -> touches st' p x = false).
+      { intros x Hx. destruct (touches st' p x) eqn:Ht; auto.
+        assert (existsb (fun x => touches st' p x) f = true) by (apply existsb_exists; eauto). congruence. }
+      rewrite (ws_fp st st' a b f G E AF AF' p NF).
+      destruct (tlookup p (st_tree st)) as [l|] eqn:Hl; [|exact H7].
+      destruct H7 as [C|[C|[C|C]]]; auto.
+      * left. apply in_app_iff in C as [C|C]; apply in_app_iff; auto. right. apply (ws_sub st st' a b f AF AF'). exact C.
+      * right. left. destruct C as (Ca & Cb & c0 & c' & Hc0 & Hrep & Hpr). split; auto. split; auto.
+        destruct (Nat.eq_dec l l0) as [->|Hne].
+        -- exists c, c'. split.
+           ++ unfold leaf_cont in *. cbn. rewrite nth_error_upd_nth_eq.
+              destruct (nth_error (st_leaves st) l0); [reflexivity|discriminate].
+           ++ split; auto. rewrite Hpr. symmetry.
+              destruct Hf as [->|[_ Hf]]; [|eauto].
+              exfalso. assert (p = p0).
+              { assert (X := tlookup_leaf _ _ _ G Hl). congruence. } subst p.
+              specialize (NF (ILeaf l0) (or_introl eq_refl)). unfold touches in NF. rewrite IP in NF. cbn in NF.
+              rewrite Hp0, path_eqb_refl in NF. discriminate.
+        -- exists c0, c'. split; auto. unfold leaf_cont in *. cbn. rewrite nth_error_upd_nth_neq; auto.
+Qed.
+
+Lemma SInv_new_leaf h st w p0 c sb :
+  let l0 := List.length (st_leaves st) in
+  let st' := mkState (st_leaves st ++ [(p0, c)]) (st_dels st) (st_tree st ++ [(p0, l0)])
+                     (set_feed st w [ILeaf l0]) (st_subs st) in
+  GInv st -> GInv st' -> nth_error (st_feeds st) w = Some [] -> tlookup p0 (st_tree st) = None ->
+  SInv h st sb -> SInv h st' sb.
+Proof.
+  intros l0 st' G G' Hw Hl0 S.
+  destruct (allfeed_set_feed st w [ILeaf l0] Hw) as (a & b & AF & AF0).
+  assert (AF' : allfeed st' = a ++ [ILeaf l0] ++ b) by exact AF0.
+  assert (E : ext st st').
+  { intros [l'|k|] d; cbn; auto. unfold leaf_path. cbn. apply option_map_nth_app. }
+  assert (Hnew : leaf_path st' l0 = Some p0).
+  { unfold leaf_path, st', l0. cbn. rewrite nth_error_app2 by lia. rewrite Nat.sub_diag. reflexivity. }
+  assert (Hout : item_pat st (ILeaf l0) = None).
+  { cbn. unfold leaf_path. assert (nth_error (st_leaves st) l0 = None) as -> by (apply nth_error_None; unfold l0; lia). reflexivity. }
+  assert (Hniq : ~ In (ILeaf l0) (iq sb)).
+  { intros Hin. destruct (s_wf _ _ _ S _ Hin) as [?|[d Hd]]; [discriminate|congruence]. }
+  assert (Hfresh : forall k, In (IDel k) [ILeaf l0] -> ~ In (IDel k) (iq sb)).
+  { intros k [?|[]]. discriminate. }
+  destruct (ws_common h st st' sb a b _ E AF AF' S Hfresh) as (C1 & C2 & C3 & C4).
+  assert (H6 := s_ord _ _ _ S). assert (H7 := s_conv _ _ _ S). assert (H4 := s_regm2 _ _ _ S).
+  assert (TL : forall p, p <> p0 -> tlookup p (st_tree st') = tlookup p (st_tree st)).
+  { intros p Hne. unfold st'. cbn. rewrite tlookup_app. destruct (tlookup p (st_tree st)); auto.
+    cbn. destruct (path_eqb p0 p) eqn:X; auto. apply path_eqb_eq in X. congruence. }
+  assert (TL0 : tlookup p0 (st_tree st') = Some l0).
+  { unfold st'. cbn. rewrite tlookup_app, Hl0. cbn. rewrite path_eqb_refl. reflexivity. }
+  constructor; auto.
+  - intros p l Hl. rewrite (ws_iq h st st' sb E S).
+    destruct (path_eqb_spec p p0) as [->|Hne].
+    + rewrite TL0 in Hl. inversion Hl; subst l. exists (filter (touches st p0) (iq sb)), 0%nat.
+      split; [cbn; rewrite app_nil_r; reflexivity|]. intros Hin. apply filter_In in Hin. tauto.
+    + rewrite TL in Hl by assumption. eauto.
+  - intros p Hp. specialize (H7 p Hp). unfold conv in *. rewrite (ws_iq h st st' sb E S).
+    destruct (path_eqb_spec p p0) as [->|Hne].
+    + rewrite TL0. left. apply in_app_iff. right. rewrite AF'. apply in_app_iff. right. left. reflexivity.
+    + rewrite TL by assumption.
+      assert (NF : forall x, In x [ILeaf l0] -> touches st' p x = false).
+      { intros x [<-|[]]. unfold touches. cbn [item_pat]. rewrite Hnew. apply path_eqb_neq. congruence. }
+      rewrite (ws_fp st st' a b _ G E AF AF' p NF).
+      destruct (tlookup p (st_tree st)) as [l|] eqn:Hl; [|exact H7].
+      destruct H7 as [C|[C|[C|C]]]; auto.
+      * left. apply in_app_iff in C as [C|C]; apply in_app_iff; auto. right. apply (ws_sub st st' a b _ AF AF'). exact C.
+      * right. left. destruct C as (Ca & Cb & c0 & c' & Hc0 & Hrep & Hpr). split; auto. split; auto.
+        exists c0, c'. split; auto. unfold leaf_cont in *. cbn. apply option_map_nth_app. exact Hc0.
+Qed.
+
+Lemma SInv_delete h st w vs nd sb :
+  let f := map IDel (seq (List.length (st_dels st)) (List.length nd)) in
+  let st' := mkState (st_leaves st) (st_dels st ++ nd) (remove_paths vs (st_tree st)) (set_feed st w f) (st_subs st) in
+  GInv st -> GInv st' -> nth_error (st_feeds st) w = Some [] ->
+  (forall x, In x vs -> exists it, In it f /\ touches st' (fst x) it = true) ->
+  SInv h st sb -> SInv h st' sb.
+Proof.
+  intros f st' G G' Hw VT S.
+  destruct (allfeed_set_feed st w f Hw) as (a & b & AF & AF0).
+  assert (AF' : allfeed st' = a ++ f ++ b) by exact AF0.
+  assert (E : ext st st').
+  { intros [l'|k|] d; cbn; auto. apply option_map_nth_app. }
+  assert (Hfresh : forall k, In (IDel k) f -> ~ In (IDel k) (iq sb)).
+  { intros k Hk Hin. apply In_map_IDel_seq in Hk. destruct (s_wf _ _ _ S _ Hin) as [?|[d Hd]]; [discriminate|].
+    cbn in Hd. destruct (nth_error (st_dels st) k) eqn:X; [|discriminate].
+    assert (k < List.length (st_dels st))%nat by (apply nth_error_Some; congruence). lia. }
+  destruct (ws_common h st st' sb a b _ E AF AF' S Hfresh) as (C1 & C2 & C3 & C4).
+  assert (H6 := s_ord _ _ _ S). assert (H7 := s_conv _ _ _ S). assert (H4 := s_regm2 _ _ _ S).
+  assert (Hff : forall x, In x f -> In x (allfeed st')).
+  { intros x Hx. rewrite AF'. apply in_app_iff. right. apply in_app_iff. auto. }
+  assert (TLs : forall p l, tlookup p (st_tree st') = Some l -> tlookup p (st_tree st) = Some l).
+  { intros p l. unfold st'. cbn. rewrite tlookup_remove_paths. destruct (existsb _ vs); [discriminate|auto]. }
+  (* a path still attached is touched by none of the new delete notifications *)
+  assert (NFa : forall p l, tlookup p (st_tree st') = Some l -> forall x, In x f -> touches st' p x = false).
+  { intros p l Hl x Hx. destruct (touches st' p x) eqn:Ht; auto.
+    rewrite (feed_touch_attached _ _ _ _ G' Hl (Hff _ Hx) Ht) in Hx.
+    apply in_map_iff in Hx as (? & ? & _). discriminate. }
+  constructor; auto.
+  - intros p l Hl. rewrite (ws_iq h st st' sb E S). apply H6. apply TLs. exact Hl.
+  - intros p Hp. specialize (H7 p Hp). unfold conv in *. rewrite (ws_iq h st st' sb E S).
+    destruct (tlookup p (st_tree st')) as [l|] eqn:Hl'.
+    + rewrite (ws_fp st st' a b _ G E AF AF' p (NFa _ _ Hl')).
+      rewrite (TLs _ _ Hl') in H7.
+      destruct H7 as [C|[C|[C|C]]]; auto.
+      left. apply in_app_iff in C as [C|C]; apply in_app_iff; auto. right. apply (ws_sub st st' a b _ AF AF'). exact C.
+    + destruct (filter (touches st' p) (allfeed st')) as [|y F] eqn:EF; [|left; left; discriminate].
+      assert (NF : forall x, In x f -> touches st' p x = false).
+      { intros x Hx. destruct (touches st' p x) eqn:Ht; auto.
+        assert (In x (filter (touches st' p) (allfeed st'))) by (apply filter_In; auto). rewrite EF in H. contradiction. }
+      assert (EFP := ws_fp st st' a b _ G E AF AF' p NF). rewrite EF in EFP.
+      destruct (tlookup p (st_tree st)) as [l|] eqn:Hl.
+      * (* it was attached: it is a victim, and its delete touches it *)
+        exfalso. unfold st' in Hl'. cbn in Hl'. rewrite tlookup_remove_paths, Hl in Hl'.
+        destruct (existsb (fun x => path_eqb (fst x) p) vs) eqn:X; [|discriminate].
+        apply existsb_exists in X as (x & Hx & Hxe). apply path_eqb_eq in Hxe. subst p.
+        destruct (VT _ Hx) as (it & Hit & Ht). rewrite (NF _ Hit) in Ht. discriminate.
+      * rewrite <- EFP in H7. exact H7.
+Qed.
+
+Lemma is_prefix_refl p : is_prefix p p = true.
+Proof. apply is_prefix_spec. exists []. symmetry. apply app_nil_r. Qed.
+
+Lemma covers_self p : star_free p = true -> covers p p = true.
+Proof. intros H. rewrite covers_star_free by assumption. apply is_prefix_refl. Qed.
+
+Lemma covers_prefix_star d p : star_free d = true -> covers d p = true -> covers (d ++ [star]) p = true.
+Proof.
+  revert p; induction d as [|x d IH]; intros p Hs H.
+  - destruct p; reflexivity.
+  - cbn in Hs. apply andb_true_iff in Hs as [Hx Hs]. apply negb_true_iff in Hx.
+    destruct p as [|y p]; cbn in *; rewrite Hx in *; [discriminate|].
+    cbn in *. apply andb_true_iff in H as [H1 H2]. rewrite H1. cbn. auto.
+Qed.
+
+Lemma write_subs h st w o st' r : write h st w o = Some (st', r) -> st_subs st' = st_subs st.
+Proof.
+  destruct o as [p v ts|d ts order|d]; cbn.
+  - destruct (negb _); [discriminate|]. destruct (h_agree h && negb _); [discriminate|].
+    destruct (tlookup p (st_tree st)).
+    + destruct (leaf_cont st n) as [[v0 ts0]|]; [|discriminate].
+      destruct (ts <? ts0); [intros [= <- _]; reflexivity|].
+      destruct ((ts =? ts0) && (v =? v0)); intros [= <- _]; reflexivity.
+    + destruct (conflicts st p); intros [= <- _]; reflexivity.
+  - destruct (negb _); [discriminate|]. destruct (tree_locked _ _); [discriminate|]. intros [= <- _]; reflexivity.
+  - destruct (negb _); [discriminate|]. destruct (tree_locked _ _); [discriminate|]. intros [= <- _]; reflexivity.
+Qed.
+
+Lemma write_SInv h st w o st' r sb :
+  GInv st -> GInv st' -> nth_error (st_feeds st) w = Some [] ->
+  write h st w o = Some (st', r) -> SInv h st sb -> SInv h st' sb.
+Proof.
+  intros G G' Hnth Hw S.
+  destruct o as [p v ts|d ts order|d]; cbn in Hw.
+  - destruct (negb _); [discriminate|]. destruct (h_agree h && negb _); [discriminate|].
+    destruct (tlookup p (st_tree st)) as [l|] eqn:Hl.
+    + destruct (leaf_cont st l) as [[v0 ts0]|] eqn:Hc; [|discriminate].
+      destruct (ts <? ts0); [inversion Hw; subst; exact S|].
+      destruct ((ts =? ts0) && (v =? v0)); [inversion Hw; subst; exact S|].
+      inversion Hw; subst. clear Hw.
+      apply (SInv_upd_existing h st w p l (v, ts)); auto.
+      destruct (h_ed h && (v =? v0)) eqn:X; [right|left; reflexivity]. split; auto.
+      intros c0 Hc0. rewrite Hc in Hc0. inversion Hc0; subst. apply proj_suppressed. exact X.
+    + destruct (conflicts st p); [inversion Hw; subst; exact S|].
+      inversion Hw; subst. apply SInv_new_leaf; auto.
+  - destruct (target_ok d) eqn:Hok; cbn in Hw; [|discriminate].
+    destruct (tree_locked st (target_of d)); [discriminate|].
+    inversion Hw; subst. clear Hw.
+    set (vs := reorder order (victims st d (fun c => snd c <? ts))) in *.
+    replace (List.length vs) with (List.length (map (fun pl : path * nat => (fst pl, ts)) vs)) in * by apply map_length.
+    apply SInv_delete; auto.
+    intros x Hx. apply In_nth_error in Hx as [i Hi].
+    exists (IDel (List.length (st_dels st) + i)). split.
+    + apply in_map. apply in_seq. rewrite map_length. split; [lia|].
+      assert (i < List.length vs)%nat by (apply nth_error_Some; congruence). lia.
+    + unfold touches. cbn. rewrite nth_error_app2 by lia.
+      replace (List.length (st_dels st) + i - List.length (st_dels st))%nat with i by lia.
+      rewrite nth_error_map, Hi. cbn. apply covers_self.
+      assert (In x vs) by (eapply nth_error_In; eauto). apply In_reorder in H. apply In_victims in H as [H _].
+      destruct x as [px lx]. apply (g_ok _ G _ _ H).
+  - destruct (target_ok d && star_free d) eqn:Hok; cbn in Hw; [|discriminate].
+    apply andb_true_iff in Hok as [Hok Hsf].
+    destruct (tree_locked st (target_of d)); [discriminate|].
+    inversion Hw; subst. clear Hw.
+    apply (SInv_delete h st w (victims st d (fun _ => true)) [(d ++ [star], 0)]); auto.
+    intros x Hx. exists (IDel (List.length (st_dels st))). split; [left; reflexivity|].
+    unfold touches. cbn. rewrite nth_error_app2 by lia. rewrite Nat.sub_diag. cbn.
+    apply covers_prefix_star; auto. apply In_victims in Hx. tauto.
+Qed.
+
+(** ** Preservation: all steps *)
+
+Lemma with_sub_inv st s f st' :
+  with_sub st s f = Some st' ->
+  exists sb sb', nth_error (st_subs st) s = Some sb /\ f sb = Some sb' /\
+                 st' = set_subs st (upd_nth s (fun _ => sb') (st_subs st)).
+Proof.
+  unfold with_sub. destruct (nth_error (st_subs st) s) as [sb|]; [|discriminate].
+  destruct (f sb) as [sb'|] eqn:E; [|discriminate]. intros [= <-]. eauto.
+Qed.
+
+Lemma deliver_qs st it sb : s_qs (deliver st it sb) = s_qs sb.
+Proof. unfold deliver. destruct (item_pat st it); [|reflexivity]. destruct (s_end sb); reflexivity. Qed.
+
+Lemma deliver_end st it sb : s_end (deliver st it sb) = s_end sb.
+Proof. unfold deliver. destruct (item_pat st it); [|reflexivity]. destruct (s_end sb) eqn:E; cbn; auto. Qed.
+
+Lemma GInv_feed st w it rest :
+  GInv st -> nth_error (st_feeds st) w = Some (it :: rest) ->
+  GInv (mkState (st_leaves st) (st_dels st) (st_tree st) (set_feed st w rest) (map (deliver st it) (st_subs st))).
+Proof.
+  intros G Hw. set (st' := mkState _ _ _ _ _).
+  assert (Hold : In (it :: rest) (st_feeds st)) by (eapply nth_error_In; eauto).
+  assert (Hsub : forall f0 x, In f0 (st_feeds st') -> In x f0 -> exists f1, In f1 (st_feeds st) /\ In x f1).
+  { intros f0 x H1 H2. apply In_set_feed in H1 as [H1| ->]; eauto. exists (it :: rest). split; auto. right. exact H2. }
+  assert (Hfo : forall w' x, In x (feed_of st' w') -> In x (feed_of st w')).
+  { intros w' x Hx. destruct (Nat.eq_dec w w') as [<-|Hne].
+    - unfold st' in Hx. rewrite feed_of_set_feed_eq in Hx.
+      + rewrite (nth_error_feed_of _ _ _ Hw). right. exact Hx.
+      + apply nth_error_Some. congruence.
+    - unfold st' in Hx. rewrite feed_of_set_feed_neq in Hx; auto. }
+  constructor.
+  - apply (g_nodup _ G).
+  - apply (g_leaf _ G).
+  - intros p l H. change (In (p, l) (st_tree st)) in H. destruct (g_ok _ G _ _ H) as (x & y & z). repeat split; auto. rewrite <- z.
+    apply agree_on_ext. cbn. rewrite map_map. apply map_ext. intros sb. apply deliver_qs.
+  - apply (g_pfree _ G).
+  - intros f0 x H1 H2. destruct (Hsub _ _ H1 H2) as (f1 & Hf1 & Hx). apply (g_feed_wf _ G _ _ Hf1 Hx).
+  - intros f0 l H1 H2. destruct (Hsub _ _ H1 H2) as (f1 & Hf1 & Hx). apply (g_feed_leaf _ G _ _ Hf1 Hx).
+  - intros f0 k d H1 H2. destruct (Hsub _ _ H1 H2) as (f1 & Hf1 & Hx). apply (g_feed_del _ G _ _ _ Hf1 Hx).
+  - intros w1 w2 x y Hne H1 H2. apply (g_feed_tgt _ G w1 w2); auto.
+  - destruct (concat_upd_nth _ _ _ Hw) as (a & b & E1 & E2). unfold allfeed, st', set_feed. cbn [st_feeds]. rewrite E2.
+    assert (N := g_feed_nodup _ G). unfold allfeed in N. rewrite E1 in N.
+    apply NoDup_remove_1 in N. exact N.
+Qed.
+
+Lemma agree_covers st sb q p :
+  agree_on st p = true -> In sb (st_subs st) -> In q (s_qs sb) -> compat q p = true -> covers q p = true.
+Proof.
+  unfold agree_on. intros H Hs Hq Hc. rewrite forallb_forall in H. specialize (H _ Hs).
+  rewrite forallb_forall in H. specialize (H _ Hq). rewrite Hc in H. destruct (covers q p); auto.
+Qed.
+
+Lemma step_Inv h st lb st' : strict h -> Inv h st -> step h st lb = Some st' -> Inv h st'.
+Proof.
+  intros Hs I Hstep. assert (G := proj1 I). destruct lb as [w o|w|s|s|s|s p0|s|s|s|s|s|s]; cbn in Hstep.
+  - (* LWrite *)
+    destruct (nth_error (st_feeds st) w) as [[|]|] eqn:Hw; try discriminate.
+    destruct Hs as [Howt Hag]. rewrite Howt in Hstep. cbn in Hstep.
+    destruct (in_flight_other st w (wop_target o)) eqn:Hifo; [discriminate|].
+    destruct (write h st w o) as [[st1 r]|] eqn:Hwr; [|discriminate]. cbn in Hstep. inversion Hstep; subst st1.
+    assert (G' : GInv st') by (eapply write_GInv; eauto; split; auto).
+    split; auto. rewrite (write_subs _ _ _ _ _ _ Hwr). intros i sb Hi He.
+    apply (write_SInv h st w o st' r sb G G' Hw Hwr). apply (proj2 I _ _ Hi He).
+  - (* LFeed *)
+    destruct (nth_error (st_feeds st) w) as [[|it rest]|] eqn:Hw; try discriminate.
+    inversion Hstep; subst st'. split; [apply GInv_feed; auto|].
+    cbn. intros i sb' Hi He. rewrite nth_error_map in Hi.
+    destruct (nth_error (st_subs st) i) as [sb|] eqn:Hsb; [|discriminate]. inversion Hi; subst sb'.
+    rewrite deliver_end in He. apply SInv_feed; auto. apply (proj2 I _ _ Hsb He).
+  - (* LReg *)
+    apply with_sub_inv in Hstep as (sb & sb' & Hsb & Hf & ->).
+    destruct (s_pc sb) as [k| | |] eqn:Hpc; try discriminate.
+    match type of Hf with (if ?c then _ else _) = _ => destruct c; [|discriminate] end. inversion Hf; subst sb'.
+    eapply Inv_sub_step; eauto. intros S _. apply SInv_reg; auto.
+  - (* LRegDone *)
+    apply with_sub_inv in Hstep as (sb & sb' & Hsb & Hf & ->).
+    destruct (s_pc sb) as [k| | |] eqn:Hpc; try discriminate.
+    destruct (k =? List.length (s_qs sb))%nat eqn:Hk; [|discriminate]. apply Nat.eqb_eq in Hk.
+    inversion Hf; subst sb'. eapply Inv_sub_step; eauto. intros S _.
+    apply (SInv_repc h st sb _ (s_snap sb)); auto.
+    + unfold regq. cbn. rewrite Hpc. subst k. rewrite firstn_all. destruct (s_uo sb); reflexivity.
+    + intros p l Hl Hp [Huo _]. left. split; auto. cbn. rewrite Huo.
+      unfold reg_match, regq in Hp. rewrite Hpc in Hp. subst k. rewrite firstn_all in Hp.
+      apply existsb_exists in Hp as (q & Hq & Hc).
+      apply In_nth_error in Hq as Hq'. destruct Hq' as [j Hj]. exists j, q. split; [lia|]. split; auto.
+      eapply agree_covers; eauto.
+      * apply (g_ok _ G _ _ (tlookup_In _ _ _ Hl)).
+      * eapply nth_error_In; eauto.
+  - (* LWalkBegin *)
+    apply with_sub_inv in Hstep as (sb & sb' & Hsb & Hf & ->).
+    destruct (s_pc sb) as [|k| |] eqn:Hpc; try discriminate.
+    destruct (nth_error (s_qs sb) k) as [q|] eqn:Hq; [|discriminate]. inversion Hf; subst sb'.
+    eapply Inv_sub_step; eauto. intros S _.
+    apply (SInv_repc h st sb); auto.
+    + unfold regq. cbn. rewrite Hpc. reflexivity.
+    + intros p l Hl Hp [Huo Hwp]. left. split; auto. rewrite Hpc in Hwp. cbn.
+      destruct Hwp as (j & q' & Hj & Hq' & Hc). destruct (Nat.eq_dec j k) as [->|Hne].
+      * right. exists q'. split; auto. split; auto. rewrite Hq in Hq'. inversion Hq'; subst q'.
+        apply in_map_iff. exists (p, l). split; auto. apply filter_In. split; [apply tlookup_In; auto|exact Hc].
+      * left. exists j, q'. split; [lia|auto].
+  - (* LVisit *)
+    apply with_sub_inv in Hstep as (sb & sb' & Hsb & Hf & ->).
+    destruct (s_pc sb) as [| |k todo|] eqn:Hpc; try discriminate.
+    destruct (nth_error (s_qs sb) k) as [q|] eqn:Hq; [|discriminate].
+    destruct (tlookup p0 (st_tree st)) as [l0|] eqn:Hl0; [|discriminate].
+    destruct (covers q p0) eqn:Hc0; [|discriminate]. inversion Hf; subst sb'.
+    eapply Inv_sub_step; eauto. cbn. intros S He. rewrite He.
+    assert (Hrm : reg_match sb p0 = true).
+    { unfold reg_match, regq. rewrite Hpc. apply existsb_exists. exists q. split; [eapply nth_error_In; eauto|].
+      apply covers_compat. exact Hc0. }
+    assert (S1 := SInv_insert h st sb (ILeaf l0) G S (or_intror (ex_intro _ l0 (ex_intro _ p0 (conj eq_refl (conj Hl0 Hrm)))))).
+    apply (SInv_repc h st (set_queue sb (q_insert (ILeaf l0) (s_queue sb)))
+             (SWalk k (filter (fun x => negb (Nat.eqb x l0)) todo)) (s_snap sb)); auto.
+    + unfold regq. cbn. rewrite Hpc. reflexivity.
+    + intros p l Hl Hp [Huo Hwp]. cbn in Hwp. rewrite Hpc in Hwp.
+      destruct Hwp as [Hwp|(q' & Hq' & Hc & Hin)].
+      * left. split; auto. cbn. left. exact Hwp.
+      * destruct (Nat.eq_dec l l0) as [->|Hne].
+        -- right. apply in_app_iff. left. apply In_iq_insert. auto.
+        -- left. split; auto. cbn. right. exists q'. split; auto. split; auto.
+           apply filter_In. split; auto. apply negb_true_iff. apply Nat.eqb_neq. exact Hne.
+  - (* LWalkEnd *)
+    apply with_sub_inv in Hstep as (sb & sb' & Hsb & Hf & ->).
+    destruct (s_pc sb) as [| |k [|]|] eqn:Hpc; try discriminate. inversion Hf; subst sb'.
+    eapply Inv_sub_step; eauto. intros S _.
+    apply (SInv_repc h st sb _ (s_snap sb)); auto.
+    + unfold regq. cbn. rewrite Hpc. reflexivity.
+    + intros p l Hl Hp [Huo Hwp]. rewrite Hpc in Hwp. left. split; auto. cbn.
+      destruct Hwp as [(j & q & Hj & Hq & Hc)|(q & _ & _ & [])]. exists j, q. split; [lia|auto].
+  - (* LSync *)
+    apply with_sub_inv in Hstep as (sb & sb' & Hsb & Hf & ->).
+    destruct (s_pc sb) as [|k| |] eqn:Hpc; try discriminate.
+    destruct (k =? List.length (s_qs sb))%nat eqn:Hk; [|discriminate]. apply Nat.eqb_eq in Hk.
+    inversion Hf; subst sb'. eapply Inv_sub_step; eauto. cbn. intros S He. rewrite He.
+    assert (S1 := SInv_insert h st sb ISync G S (or_introl eq_refl)).
+    apply (SInv_repc h st (set_queue sb (q_insert ISync (s_queue sb))) SDone (s_snap sb)); auto.
+    + unfold regq. cbn. rewrite Hpc. reflexivity.
+    + intros p l Hl Hp [Huo Hwp]. cbn in Hwp. rewrite Hpc in Hwp.
+      destruct Hwp as (j & q & Hj & Hq & _). exfalso.
+      assert (j < List.length (s_qs sb))%nat by (apply nth_error_Some; congruence). lia.
+  - (* LDeq *)
+    apply with_sub_inv in Hstep as (sb & sb' & Hsb & Hf & ->).
+    destruct (is_registered sb && negb (s_end sb)) eqn:Hg; [|discriminate].
+    apply andb_true_iff in Hg as [_ Hg]. apply negb_true_iff in Hg.
+    destruct (s_infl sb) eqn:Hi; [discriminate|]. destruct (s_out sb) eqn:Ho; [discriminate|].
+    destruct (s_queue sb) as [|x q'] eqn:Hq; [discriminate|]. inversion Hf; subst sb'.
+    eapply Inv_sub_step; eauto. intros S _. apply SInv_deq; auto.
+  - (* LRead *)
+    apply with_sub_inv in Hstep as (sb & sb' & Hsb & Hf & ->).
+    destruct (s_end sb) eqn:He; [discriminate|].
+    destruct (s_infl sb) as [[it d]|] eqn:Hi; [|discriminate].
+    destruct (build st it d) as [r|] eqn:Hb; [|discriminate]. inversion Hf; subst sb'.
+    eapply Inv_sub_step; eauto. intros S _. eapply SInv_read; eauto.
+  - (* LSent *)
+    apply with_sub_inv in Hstep as (sb & sb' & Hsb & Hf & ->).
+    destruct (s_end sb) eqn:He; [discriminate|].
+    destruct (s_out sb) as [r|] eqn:Ho; [|discriminate]. inversion Hf; subst sb'.
+    eapply Inv_sub_step; eauto. intros S _. eapply SInv_sent; eauto.
+  - (* LTimeout *)
+    apply with_sub_inv in Hstep as (sb & sb' & Hsb & Hf & ->).
+    destruct (s_end sb) eqn:He; [discriminate|].
+    destruct (s_out sb) as [[]|] eqn:Ho; try discriminate; inversion Hf; subst sb';
+      (eapply Inv_sub_step; eauto; cbn; discriminate).
+Qed.
+
+(** ** The theorems of C04 *)
+
+Lemma SInv_init h st qs uo : SInv h st (init_sub qs uo) \/ True.
+Proof. right. exact I. Qed.
+
+Lemma Inv_init h nw subs : Inv h (init nw subs).
+Proof.
+  split; [apply GInv_init|]. cbn. intros i sb Hi _. rewrite nth_error_map in Hi.
+  destruct (nth_error subs i) as [[qs uo]|]; [|discriminate]. inversion Hi; subst sb. cbn.
+  constructor; cbn.
+  - intros H. exfalso. apply H. reflexivity.
+  - unfold iq, infl_list. cbn. destruct uo; cbn; intros it H; [destruct H as [<-|[]]; auto|contradiction].
+  - unfold iq, infl_list. cbn. destruct uo; cbn; intros l p H; [destruct H as [?|[]]; discriminate|contradiction].
+  - unfold so. cbn. intros p v ts d [].
+  - unfold iq, infl_list. cbn. destruct uo; cbn; intros k H; [destruct H as [?|[]]; discriminate|contradiction].
+  - intros p l H. discriminate.
+  - unfold reg_match, regq. cbn. intros p H. discriminate.
+Qed.
+
+Lemma reachable_Inv h nw subs st : strict h -> reachable h nw subs st -> Inv h st.
+Proof.
+  intros Hs [sch Hr]. revert Hr. generalize (Inv_init h nw subs). generalize (init nw subs).
+  induction sch as [|lb sch IH]; intros s0 I Hr; cbn in Hr.
+  - inversion Hr; subst. exact I.
+  - destruct (step h s0 lb) as [s1|] eqn:E; [|discriminate]. apply (IH s1); auto. eapply step_Inv; eauto.
+Qed.
+
+Theorem stream_invariant h nw subs st :
+  strict h -> reachable h nw subs st ->
+  forall i sb, nth_error (st_subs st) i = Some sb -> s_end sb = false ->
+    walk_done sb = true -> s_uo sb = false ->
+    forall p, sub_matches sb p = true ->
+      option_map (proj h) (replay_path p None (full_stream st sb)) = option_map (proj h) (cache_at st p).
+Proof.
+  intros Hs Hr i sb Hi He Hw Huo p Hp.
+  destruct (reachable_Inv _ _ _ _ Hs Hr) as [G S]. specialize (S _ _ Hi He).
+  assert (Hpc : s_pc sb = SDone) by (unfold walk_done in Hw; destruct (s_pc sb); congruence).
+  destruct (converged h st sb p G S (sub_matches_reg _ _ Hpc Hp)) as [H|(H & _)]; auto; [|congruence].
+  destruct (tlookup p (st_tree st)); auto. intros [_ W]. rewrite Hpc in W. exact W.
+Qed.
+
+Lemma quiescent_stream st sb :
+  quiescent st -> In sb (st_subs st) -> s_end sb = false -> full_stream st sb = s_sent sb.
+Proof.
+  intros [Q1 Q2] Hin He. destruct (Q2 _ Hin He) as (_ & Hq & Hi & Ho).
+  unfold full_stream, out_list, tail_items. rewrite Hq, Hi, Ho. cbn.
+  assert (pending_feed st sb = []) as ->.
+  { unfold pending_feed. induction (st_feeds st) as [|f fs IH]; cbn; auto.
+    rewrite (Q1 f) by (left; reflexivity). cbn. apply IH. intros f' Hf'. apply Q1. right. exact Hf'. }
+  cbn. apply app_nil_r.
+Qed.
+
+Theorem stream_converges h nw subs st :
+  strict h -> reachable h nw subs st -> quiescent st ->
+  forall i sb, nth_error (st_subs st) i = Some sb -> s_end sb = false -> s_uo sb = false ->
+    forall p, sub_matches sb p = true ->
+      option_map (proj h) (replay_path p None (s_sent sb)) = option_map (proj h) (cache_at st p).
+Proof.
+  intros Hs Hr Q i sb Hi He Huo p Hp.
+  rewrite <- (quiescent_stream st sb Q (nth_error_In _ _ Hi) He).
+  eapply stream_invariant; eauto.
+  destruct Q as [_ Q2]. destruct (Q2 _ (nth_error_In _ _ Hi) He) as (Hpc & _). unfold walk_done. rewrite Hpc. reflexivity.
+Qed.
+
+(** An updates_only subscriber never holds a wrong value: for every path one
+    of its registered queries is compatible with, replaying its stream gives
+    the cache's content, or nothing (it was not told about a leaf that existed
+    before it subscribed and has not changed since). *)
+Theorem updates_only_never_wrong h nw subs st :
+  strict h -> reachable h nw subs st ->
+  forall i sb, nth_error (st_subs st) i = Some sb -> s_end sb = false -> s_uo sb = true ->
+    forall p, reg_match sb p = true ->
+      option_map (proj h) (replay_path p None (full_stream st sb)) = option_map (proj h) (cache_at st p)
+      \/ (cache_at st p <> None /\ replay_path p None (full_stream st sb) = None).
+Proof.
+  intros Hs Hr i sb Hi He Huo p Hp.
+  destruct (reachable_Inv _ _ _ _ Hs Hr) as [G S]. specialize (S _ _ Hi He).
+  destruct (converged h st sb p G S Hp) as [H|(_ & H)]; auto.
+  destruct (tlookup p (st_tree st)); auto. intros [W _]. congruence.
+Qed.
+
+(** No lost update: as soon as the tree write of an accepted change to a leaf
+    has happened, the leaf's handle is on its way to every live subscriber
+    with a registered compatible query (in the writer's pending list, the
+    queue, or the sender's hand), and it stays there until the sender reads
+    the leaf's then-current value ([stream_invariant] is what "stays" means). *)
+Theorem no_lost_update h nw subs st w p v ts st' :
+  strict h -> reachable h nw subs st ->
+  step h st (LWrite w (WUpd p v ts)) = Some st' ->
+  forall l, In (ILeaf l) (feed_of st' w) ->
+    leaf_path st' l = Some p /\ leaf_cont st' l = Some (v, ts) /\ tlookup p (st_tree st') = Some l /\
+    forall sb, In sb (st_subs st') -> reg_match sb p = true -> In (ILeaf l) (pending_feed st' sb).
+Proof.
+  intros Hs Hr. destruct (reachable_Inv _ _ _ _ Hs Hr) as [G _]. revert G.
+  cbn. destruct (nth_error (st_feeds st) w) as [[|]|] eqn:Hw; try discriminate.
+  destruct (h_owt h && in_flight_other st w (target_of p)); [discriminate|].
+  destruct (negb (target_ok p && star_free p)); [discriminate|].
+  destruct (h_agree h && negb (agree_on st p)); [discriminate|].
+  assert (Hlt : (w < List.length (st_feeds st))%nat) by (apply nth_error_Some; congruence).
+  assert (PF : forall st1 l sb, In (ILeaf l) (feed_of st1 w) -> leaf_path st1 l = Some p ->
+               reg_match sb p = true -> In (ILeaf l) (pending_feed st1 sb)).
+  { intros st1 l sb Hin Hlp Hr'. unfold pending_feed. apply in_flat_map. exists (feed_of st1 w).
+    split; [eapply feed_of_In; eauto|]. apply filter_In. split; auto. cbn. rewrite Hlp.
+    unfold mult. unfold reg_match in Hr'. rewrite Hr'. reflexivity. }
+  intros G. destruct (tlookup p (st_tree st)) as [l0|] eqn:Hl.
+  - destruct (leaf_cont st l0) as [[v0 ts0]|] eqn:Hc; [|discriminate].
+    destruct (ts <? ts0); [cbn; intros [= <-] l Hin; rewrite (nth_error_feed_of _ _ _ Hw) in Hin; contradiction|].
+    destruct ((ts =? ts0) && (v =? v0)); [cbn; intros [= <-] l Hin; rewrite (nth_error_feed_of _ _ _ Hw) in Hin; contradiction|].
+    cbn. intros [= <-] l Hin. assert (Hin' := Hin). rewrite feed_of_set_feed_eq in Hin by assumption.
+    destruct (h_ed h && (v =? v0)); [contradiction|]. destruct Hin as [[= <-]|[]].
+    assert (Hlp := tlookup_leaf _ _ _ G Hl). unfold leaf_path in Hlp.
+    destruct (nth_error (st_leaves st) l0) as [[p' c0]|] eqn:X; [|discriminate]. cbn in Hlp. inversion Hlp; subst p'.
+    assert (L1 : leaf_path (mkState (upd_nth l0 (fun pc => (fst pc, (v, ts))) (st_leaves st)) (st_dels st) (st_tree st)
+                              (set_feed st w [ILeaf l0]) (st_subs st)) l0 = Some p).
+    { unfold leaf_path. cbn. rewrite nth_error_upd_nth_eq, X. reflexivity. }
+    split; [exact L1|]. split; [unfold leaf_cont; cbn; rewrite nth_error_upd_nth_eq, X; reflexivity|].
+    split; [exact Hl|]. intros sb _ Hrm. apply PF; auto.
+  - destruct (conflicts st p); [cbn; intros [= <-] l Hin; rewrite (nth_error_feed_of _ _ _ Hw) in Hin; contradiction|].
+    cbn. intros [= <-] l Hin. assert (Hin' := Hin). rewrite feed_of_set_feed_eq in Hin by assumption. destruct Hin as [[= <-]|[]].
+    assert (L1 : leaf_path (mkState (st_leaves st ++ [(p, (v, ts))]) (st_dels st) (st_tree st ++ [(p, List.length (st_leaves st))])
+                              (set_feed st w [ILeaf (List.length (st_leaves st))]) (st_subs st)) (List.length (st_leaves st)) = Some p).
+    { unfold leaf_path. cbn. rewrite nth_error_app2 by lia. rewrite Nat.sub_diag. reflexivity. }
+    split; [exact L1|]. split; [unfold leaf_cont; cbn; rewrite nth_error_app2 by lia; rewrite Nat.sub_diag; reflexivity|].
+    split; [cbn; rewrite tlookup_app, Hl; cbn; rewrite path_eqb_refl; reflexivity|].
+    intros sb _ Hrm. apply PF; auto.
 Qed.
